@@ -462,12 +462,20 @@ Proof.
   constructor; [intros r|intros r|]; unf; simp_sets; cbn [andb]; rewrite ?T, ?E; try lia; try (split; [lia|discriminate]).
 Qed.
 
-Lemma opened_Inv cf0 s tr sid c gate now :
-  Inv s tr -> Inv (fst (h_opened cf0 s sid c gate now)) (tr ++ snd (h_opened cf0 s sid c gate now)).
+Lemma Inv_cons_quiet s tr x o :
+  (forall r, is_term r x = false) -> Inv s (tr ++ o) -> Inv s (tr ++ x :: o).
 Proof.
-  intros I. unfold h_opened. destruct (find_po sid (pouts s)) as [po|] eqn:F; cbn [fst snd];
-    [|rewrite app_nil_r; exact I].
-  pose proof (fun r => cnt_drop_in rid_po r po (pouts s) (proj1 (find_in _ _ _ F))) as D.
+  intros Hx [A B C D]. constructor; auto.
+  - intros r. specialize (A r). rewrite terms_app in *. rewrite terms_cons_nonterm by apply Hx. exact A.
+  - intros r Hr. specialize (C r Hr). rewrite terms_app in *. rewrite terms_cons_nonterm by apply Hx. exact C.
+Qed.
+
+Lemma opened_body_Inv cf0 s tr po c gate now :
+  Inv s tr -> In po (pouts s) ->
+  Inv (fst (opened_body cf0 s po c gate now)) (tr ++ snd (opened_body cf0 s po c gate now)).
+Proof.
+  intros I Hin. unfold opened_body.
+  pose proof (fun r => cnt_drop_in rid_po r po (pouts s) Hin) as D.
   (* dropping the entry alone *)
   assert (M0 : Moves false s (set_pouts s (drop_po po (pouts s))) []).
   { constructor; [intros r|intros r|]; unf; simp_sets; cbn [andb]; rewrite ?terms_nil; try specialize (D r);
@@ -488,6 +496,16 @@ Proof.
     - simp_sets. intros po' H. exact (proj1 (drop_po_other _ _ _ _ I H)). }
   destruct (max_size cf0 <? q_len (po_req po)); [apply Hsettle|].
   destruct gate as [|[g|g|]]; try apply Hsettle; apply Hpush; try reflexivity.
+Qed.
+
+Lemma opened_Inv cf0 s tr sid c gate now :
+  Inv s tr -> Inv (fst (h_opened cf0 s sid c gate now)) (tr ++ snd (h_opened cf0 s sid c gate now)).
+Proof.
+  intros I. unfold h_opened. destruct (find_po sid (pouts s)) as [po|] eqn:F; cbn [fst snd];
+    [|rewrite app_nil_r; exact I].
+  pose proof (opened_body_Inv cf0 s tr po c gate now I (proj1 (find_in _ _ _ F))) as H.
+  destruct (opened_body _ _ _ _ _ _) as [s1 o]. cbn [fst snd] in *.
+  apply Inv_cons_quiet; [reflexivity|exact H].
 Qed.
 
 Lemma find_fut_in c l f : find_fut c l = Some f -> In f l.
@@ -543,7 +561,7 @@ Qed.
 (* state changes that do not touch the ledger *)
 Definition same_ledger (s s' : pst) : Prop :=
   dials s' = dials s /\ active s' = active s /\ pouts s' = pouts s /\ futs s' = futs s /\
-  next_rid s <= next_rid s'.
+  next_rid s <= next_rid s' /\ peers s' = peers s.
 
 Lemma Inv_same_ledger s s' tr o :
   Inv s tr -> same_ledger s s' -> (forall r, terms r o = 0%nat) -> Inv s' (tr ++ o).
@@ -554,7 +572,7 @@ Proof.
 Qed.
 
 Lemma same_ledger_refl s : same_ledger s s.
-Proof. unfold same_ledger. repeat split; lia. Qed.
+Proof. unfold same_ledger. repeat split; try lia; try reflexivity. Qed.
 
 Lemma cancel_Inv s tr rid :
   Inv s tr -> Inv (fst (h_cancel s rid)) (tr ++ snd (h_cancel s rid)).
@@ -572,7 +590,7 @@ Lemma inopen_same cf0 s p c : same_ledger s (fst (h_inopen cf0 s p c)) /\ snd (h
 Proof.
   unfold h_inopen. destruct (match max_inb cf0 with Some m => m <=? inbound_load s | None => false end);
     cbn [fst snd]; [split; [apply same_ledger_refl|reflexivity]|].
-  simp_sets. destruct (memN p (peers s)); cbn [fst snd]; unfold same_ledger; simp_sets; repeat split; lia.
+  simp_sets. destruct (memN p (peers s)); cbn [fst snd]; unfold same_ledger; simp_sets; repeat split; try lia; try reflexivity.
 Qed.
 
 Lemma inread_same s c good len tag :
@@ -581,18 +599,18 @@ Proof.
   unfold h_inread. destruct (find_rd c (rdrs s)) as [rd|]; cbn [fst snd];
     [|split; [apply same_ledger_refl|reflexivity]].
   simp_sets. destruct (memN (r_peer rd) (peers s) && memP (r_peer rd, r_irid rd) (inb s));
-    [destruct good|]; cbn [fst snd]; unfold same_ledger; simp_sets; repeat split; try lia; reflexivity.
+    [destruct good|]; cbn [fst snd]; unfold same_ledger; simp_sets; repeat split; try lia; try reflexivity.
 Qed.
 
-Lemma uresp_same cf0 s irid len tag gate now :
-  same_ledger s (fst (h_uresp cf0 s irid len tag gate now)) /\
-  forall r, terms r (snd (h_uresp cf0 s irid len tag gate now)) = 0%nat.
+Lemma uresp_same cf0 s irid len tag fb gate now :
+  same_ledger s (fst (h_uresp cf0 s irid len tag fb gate now)) /\
+  forall r, terms r (snd (h_uresp cf0 s irid len tag fb gate now)) = 0%nat.
 Proof.
-  unfold h_uresp. destruct (find_rs irid (rsps s)) as [rs|]; cbn [fst snd];
+  unfold h_uresp, feed. destruct (find_rs irid (rsps s)) as [rs|]; cbn [fst snd];
     [|split; [apply same_ledger_refl|reflexivity]].
   destruct (s_w rs); cbn [fst snd]; [split; [apply same_ledger_refl|reflexivity]|].
-  destruct (max_size cf0 <? len); [|destruct gate as [|[g|g|]]]; cbn [fst snd]; unfold same_ledger; simp_sets;
-    repeat split; try lia; reflexivity.
+  destruct fb; (destruct (max_size cf0 <? len); [|destruct gate as [|[g|g|]]]); cbn [fst snd]; unfold same_ledger; simp_sets;
+    repeat split; try lia; try reflexivity.
 Qed.
 
 Lemma rsp_gate_same s c ok :
@@ -601,7 +619,17 @@ Proof.
   unfold rsp_gate. destruct (find _ (rsps s)) as [rs|]; cbn [fst snd];
     [|split; [apply same_ledger_refl|reflexivity]].
   destruct (s_w rs) as [[[l t] d]|]; cbn [fst snd]; [|split; [apply same_ledger_refl|reflexivity]].
-  destruct ok; unfold same_ledger; simp_sets; repeat split; try lia; reflexivity.
+  unfold feed. destruct ok; destruct (s_fb rs); unfold same_ledger; simp_sets; repeat split; try lia; try reflexivity.
+Qed.
+
+Lemma feed_terms r fb irid ok : terms r (feed fb irid ok) = 0%nat.
+Proof. destruct fb; reflexivity. Qed.
+
+Lemma adv_out_terms s now r : terms r (rsp_advance_out s now) = 0%nat.
+Proof.
+  unfold rsp_advance_out. induction (rsps s) as [|a l IH]; [reflexivity|].
+  cbn [flat_map]. rewrite terms_app, IH. destruct (s_w a) as [[[x y] d]|]; [|reflexivity].
+  destruct (d <=? now); [rewrite feed_terms|]; reflexivity.
 Qed.
 
 (* ------------------------------------------------------------------ one step, whole runs *)
@@ -673,25 +701,25 @@ Proof.
   - (* advance *)
     pose proof (advance_Inv s tr (now en + dt) I) as H.
     destruct (fut_advance s (now en + dt)) as [s1 o]. cbn [fst snd] in *.
-    rewrite <- (app_nil_r (tr ++ o)). eapply Inv_same_ledger; [exact H| |reflexivity].
-    unfold rsp_advance, same_ledger. simp_sets. repeat split; lia.
+    rewrite app_assoc. eapply Inv_same_ledger; [exact H| |intros r; apply adv_out_terms].
+    unfold rsp_advance, same_ledger. simp_sets. repeat split; try lia; try reflexivity.
   - destruct (conn_of p en); cbn [fst snd]; [|rewrite app_nil_r; exact I].
     pose proof (inopen_same cf0 s p (N.of_nat (length (chans en)))) as [H T].
     destruct (h_inopen _ _ _ _) as [s1 o]. cbn [fst snd] in *. subst o.
     eapply Inv_same_ledger; [exact I|exact H|reflexivity].
   - destruct (chans en) as [|ch0 chs] eqn:CH; cbn [fst snd]; [rewrite app_nil_r; exact I|].
     destruct (nth_error _ _) as [ch|]; cbn [fst snd]; [|rewrite app_nil_r; exact I].
-    destruct (negb (c_out ch) && negb (c_seen ch)); cbn [fst snd]; [|rewrite app_nil_r; exact I].
+    destruct (negb (c_out ch)); cbn [fst snd]; [|rewrite app_nil_r; exact I].
     match goal with |- context [h_inread s ?c ?g ?l ?t] =>
       pose proof (inread_same s c g l t) as [H T]; destruct (h_inread s c g l t) as [s1 o] end.
     exact (Inv_same_ledger _ _ _ _ I H T).
   - destruct (nth_mod k (hpend en)) as [irid|]; cbn [fst snd]; [|rewrite app_nil_r; exact I].
-    match goal with |- context [h_uresp cf0 s ?a ?b ?c ?d ?e] =>
-      pose proof (uresp_same cf0 s a b c d e) as [H T]; destruct (h_uresp cf0 s a b c d e) as [s1 o] end.
+    match goal with |- context [h_uresp cf0 s ?a ?b ?c ?f ?d ?e] =>
+      pose proof (uresp_same cf0 s a b c f d e) as [H T]; destruct (h_uresp cf0 s a b c f d e) as [s1 o] end.
     exact (Inv_same_ledger _ _ _ _ I H T).
   - destruct (nth_mod k (hpend en)) as [irid|]; cbn [fst snd]; [|rewrite app_nil_r; exact I].
     unfold h_urej. cbn [fst snd]. eapply Inv_same_ledger; [exact I| |reflexivity].
-    unfold same_ledger. simp_sets. repeat split; lia.
+    unfold same_ledger. simp_sets. repeat split; try lia; try reflexivity.
   - cbn [fst snd]. rewrite app_nil_r. exact I.
 Qed.
 
@@ -923,10 +951,10 @@ Qed.
 Lemma Keeps_set_pouts cs s l : Keeps cs s (set_pouts s l) [].
 Proof. constructor; unfold owed; unf; simp_sets; [intros r H; left; exact H|intros r []|intros g H; left; exact H]. Qed.
 
-Lemma opened_Keeps cs cf0 s sid c gate now :
-  Keeps cs s (fst (h_opened cf0 s sid c gate now)) (snd (h_opened cf0 s sid c gate now)).
+Lemma opened_body_Keeps cs cf0 s po c gate now :
+  Keeps cs s (fst (opened_body cf0 s po c gate now)) (snd (opened_body cf0 s po c gate now)).
 Proof.
-  unfold h_opened. destruct (find_po sid (pouts s)) as [po|]; cbn [fst snd]; [|apply Keeps_refl].
+  unfold opened_body.
   assert (Hsettle : forall res, res <> RErr E_CANCELED ->
      Keeps cs s (fst (settle (set_pouts s (drop_po po (pouts s))) (po_peer po) (q_rid (po_req po)) res))
                 (snd (settle (set_pouts s (drop_po po (pouts s))) (po_peer po) (q_rid (po_req po)) res))).
@@ -943,6 +971,24 @@ Proof.
   destruct gate as [|[g|g|]]; try (apply Hsettle; discriminate); apply Hpush; try reflexivity.
   - intros r [].
   - intros r [H|[]]. discriminate.
+Qed.
+
+Lemma Keeps_cons_quiet cs s s' x o :
+  (forall r, is_term r x = false) -> (forall r, x <> OSent r) -> Keeps cs s s' o -> Keeps cs s s' (x :: o).
+Proof.
+  intros Hx Hs [K1 K2 K3]. constructor; unfold answered in *.
+  - intros r H. rewrite terms_cons_nonterm by apply Hx. exact (K1 r H).
+  - intros r [H|H]; [destruct (Hs r H)|]. rewrite terms_cons_nonterm by apply Hx. exact (K2 r H).
+  - exact K3.
+Qed.
+
+Lemma opened_Keeps cs cf0 s sid c gate now :
+  Keeps cs s (fst (h_opened cf0 s sid c gate now)) (snd (h_opened cf0 s sid c gate now)).
+Proof.
+  unfold h_opened. destruct (find_po sid (pouts s)) as [po|]; cbn [fst snd]; [|apply Keeps_refl].
+  pose proof (opened_body_Keeps cs cf0 s po c gate now) as H.
+  destruct (opened_body _ _ _ _ _ _) as [s1 o]. cbn [fst snd] in *.
+  apply Keeps_cons_quiet; [reflexivity|discriminate|exact H].
 Qed.
 
 Lemma Keeps_cons_wire cs s s' c l t o : Keeps cs s s' o -> Keeps cs s s' (OWire c l t :: o).
@@ -1003,11 +1049,11 @@ Proof.
     intros r H; cbn in H; repeat destruct H as [H|H]; try discriminate; auto.
 Qed.
 
-Lemma uresp_nosent cf0 s irid len tag gate now : nosent (snd (h_uresp cf0 s irid len tag gate now)).
+Lemma uresp_nosent cf0 s irid len tag fb gate now : nosent (snd (h_uresp cf0 s irid len tag fb gate now)).
 Proof.
-  unfold h_uresp. destruct (find_rs irid (rsps s)) as [rs|]; cbn [fst snd]; [|intros r []].
+  unfold h_uresp, feed. destruct (find_rs irid (rsps s)) as [rs|]; cbn [fst snd]; [|intros r []].
   destruct (s_w rs); cbn [fst snd]; [intros r []|].
-  destruct (max_size cf0 <? len); [|destruct gate as [|[g|g|]]]; cbn [fst snd];
+  destruct fb; (destruct (max_size cf0 <? len); [|destruct gate as [|[g|g|]]]); cbn [fst snd];
     intros r H; cbn in H; repeat destruct H as [H|H]; try discriminate; auto.
 Qed.
 
@@ -1015,7 +1061,14 @@ Lemma rsp_gate_nosent s c ok : nosent (snd (rsp_gate s c ok)).
 Proof.
   unfold rsp_gate. destruct (find _ (rsps s)) as [rs|]; cbn [fst snd]; [|intros r []].
   destruct (s_w rs) as [[[l t] d]|]; cbn [fst snd]; [|intros r []].
-  destruct ok; intros r H; cbn in H; repeat destruct H as [H|H]; try discriminate; auto.
+  unfold feed. destruct ok; destruct (s_fb rs); intros r H; cbn in H; repeat destruct H as [H|H]; try discriminate; auto.
+Qed.
+
+Lemma adv_out_nosent s now : nosent (rsp_advance_out s now).
+Proof.
+  unfold rsp_advance_out. intros r H. apply in_flat_map in H. destruct H as [a [_ H]].
+  destruct (s_w a) as [[[x y] d]|]; [|destruct H]. destruct (d <=? now); [|destruct H].
+  unfold feed in H. destruct (s_fb a); [|destruct H]. destruct H as [H|[]]. discriminate.
 Qed.
 
 Definition cs_step (cs : list N) (e : ev) : list N :=
@@ -1090,27 +1143,27 @@ Proof.
   - assert (Hne : RErr E_TIMEOUT <> RErr E_CANCELED) by discriminate.
     pose proof (complete_all_Keeps cs (filter (fun f => f_dl f <=? now en + dt) (futs s)) s _ Hne) as H.
     unfold fut_advance. destruct (complete_all _ _ _) as [s1 o]. cbn [fst snd] in *.
-    apply Keeps_app_nil. eapply Keeps_trans; [exact H|]. apply Keeps_same; [|intros r []].
-    unfold rsp_advance, same_ledger. simp_sets. repeat split; lia.
+    eapply Keeps_trans; [exact H|]. apply Keeps_same; [|apply adv_out_nosent].
+    unfold rsp_advance, same_ledger. simp_sets. repeat split; try lia; try reflexivity.
   - destruct (conn_of p en); cbn [fst snd]; [|apply Keeps_refl].
     pose proof (inopen_same cf0 s p (N.of_nat (length (chans en)))) as [H T].
     destruct (h_inopen _ _ _ _) as [s1 o]. cbn [fst snd] in *. subst o.
     apply Keeps_same; [exact H|intros r []].
   - destruct (chans en) as [|ch0 chs] eqn:CH; cbn [fst snd]; [apply Keeps_refl|].
     destruct (nth_error _ _) as [ch|]; cbn [fst snd]; [|apply Keeps_refl].
-    destruct (negb (c_out ch) && negb (c_seen ch)); cbn [fst snd]; [|apply Keeps_refl].
+    destruct (negb (c_out ch)); cbn [fst snd]; [|apply Keeps_refl].
     match goal with |- context [h_inread s ?c ?g ?l ?t] =>
       pose proof (inread_same s c g l t) as [H _]; pose proof (inread_nosent s c g l t) as Hn;
       destruct (h_inread s c g l t) as [s1 o] end.
     exact (Keeps_same cs _ _ _ H Hn).
   - destruct (nth_mod k (hpend en)) as [irid|]; cbn [fst snd]; [|apply Keeps_refl].
-    match goal with |- context [h_uresp cf0 s ?a ?b ?c ?d ?e] =>
-      pose proof (uresp_same cf0 s a b c d e) as [H _]; pose proof (uresp_nosent cf0 s a b c d e) as Hn;
-      destruct (h_uresp cf0 s a b c d e) as [s1 o] end.
+    match goal with |- context [h_uresp cf0 s ?a ?b ?c ?f ?d ?e] =>
+      pose proof (uresp_same cf0 s a b c f d e) as [H _]; pose proof (uresp_nosent cf0 s a b c f d e) as Hn;
+      destruct (h_uresp cf0 s a b c f d e) as [s1 o] end.
     exact (Keeps_same cs _ _ _ H Hn).
   - destruct (nth_mod k (hpend en)) as [irid|]; cbn [fst snd]; [|apply Keeps_refl].
     unfold h_urej. cbn [fst snd]. apply Keeps_same; [|intros r []].
-    unfold same_ledger. simp_sets. repeat split; lia.
+    unfold same_ledger. simp_sets. repeat split; try lia; try reflexivity.
   - cbn [fst snd]. apply Keeps_refl.
 Qed.
 
@@ -1193,11 +1246,14 @@ Proof. unfold h_openfail, same_io. io_crush. Qed.
 Lemma opened_io cf0 s sid c gate now : same_io s (fst (h_opened cf0 s sid c gate now)).
 Proof.
   unfold h_opened. destruct (find_po sid (pouts s)) as [po|]; [|split; reflexivity].
-  assert (H : forall res, same_io s (fst (settle (set_pouts s (drop_po po (pouts s))) (po_peer po) (q_rid (po_req po)) res))).
-  { intros res. destruct (settle_io (set_pouts s (drop_po po (pouts s))) (po_peer po) (q_rid (po_req po)) res) as [A B].
-    split; [rewrite A|rewrite B]; reflexivity. }
-  destruct (max_size cf0 <? q_len (po_req po)); [apply H|].
-  destruct gate as [|[g|g|]]; try apply H; split; reflexivity.
+  assert (B : same_io s (fst (opened_body cf0 s po c gate now))).
+  { unfold opened_body.
+    assert (H : forall res, same_io s (fst (settle (set_pouts s (drop_po po (pouts s))) (po_peer po) (q_rid (po_req po)) res))).
+    { intros res. destruct (settle_io (set_pouts s (drop_po po (pouts s))) (po_peer po) (q_rid (po_req po)) res) as [A B].
+      split; [rewrite A|rewrite B]; reflexivity. }
+    destruct (max_size cf0 <? q_len (po_req po)); [apply H|].
+    destruct gate as [|[g|g|]]; try apply H; split; reflexivity. }
+  destruct (opened_body _ _ _ _ _ _) as [s1 o]. exact B.
 Qed.
 Lemma unblock_io cf0 s c now : same_io s (fst (fut_unblock cf0 s c now)).
 Proof.
@@ -1257,12 +1313,12 @@ Proof.
     unfold inbound_load, drop_rd in *; simp_sets; rewrite ?app_length; cbn [length]; lia.
 Qed.
 
-Lemma uresp_load cf0 s irid len tag gate now : load_ok cf0 s -> load_ok cf0 (fst (h_uresp cf0 s irid len tag gate now)).
+Lemma uresp_load cf0 s irid len tag fb gate now : load_ok cf0 s -> load_ok cf0 (fst (h_uresp cf0 s irid len tag fb gate now)).
 Proof.
-  unfold h_uresp. destruct (find_rs irid (rsps s)) as [rs|]; cbn [fst]; [|auto].
+  unfold h_uresp, feed. destruct (find_rs irid (rsps s)) as [rs|]; cbn [fst]; [|auto].
   destruct (s_w rs); cbn [fst]; [auto|]. apply load_le.
   pose proof (filter_len (fun r => negb (s_irid r =? irid)) (rsps s)).
-  destruct (max_size cf0 <? len); [|destruct gate as [|[g|g|]]]; cbn [fst]; unfold inbound_load, drop_rs in *; simp_sets;
+  destruct fb; (destruct (max_size cf0 <? len); [|destruct gate as [|[g|g|]]]); cbn [fst]; unfold inbound_load, drop_rs in *; simp_sets;
     rewrite ?map_length; lia.
 Qed.
 
@@ -1336,12 +1392,12 @@ Proof.
     destruct (h_inopen _ _ _ _) as [s1 o]. exact H.
   - destruct (chans en) as [|ch0 chs] eqn:CH; cbn [fst]; [exact L|].
     destruct (nth_error _ _) as [ch|]; cbn [fst]; [|exact L].
-    destruct (negb (c_out ch) && negb (c_seen ch)); cbn [fst]; [|exact L].
+    destruct (negb (c_out ch)); cbn [fst]; [|exact L].
     match goal with |- context [h_inread s ?c ?g ?l ?t] =>
       pose proof (inread_load cf0 s c g l t L) as H; destruct (h_inread s c g l t) as [s1 o] end. exact H.
   - destruct (nth_mod k (hpend en)) as [irid|]; cbn [fst]; [|exact L].
-    match goal with |- context [h_uresp cf0 s ?a ?b ?c ?d ?e] =>
-      pose proof (uresp_load cf0 s a b c d e L) as H; destruct (h_uresp cf0 s a b c d e) as [s1 o] end. exact H.
+    match goal with |- context [h_uresp cf0 s ?a ?b ?c ?f ?d ?e] =>
+      pose proof (uresp_load cf0 s a b c f d e L) as H; destruct (h_uresp cf0 s a b c f d e) as [s1 o] end. exact H.
   - destruct (nth_mod k (hpend en)) as [irid|]; cbn [fst]; [|exact L].
     unfold h_urej. cbn [fst]. apply (load_le cf0 s); [|exact L].
     unfold inbound_load, drop_rs. simp_sets. pose proof (filter_len (fun r => negb (s_irid r =? irid)) (rsps s)). lia.
@@ -1356,4 +1412,1456 @@ Proof.
     pose proof (step_load cf0 s en e L) as H. destruct (step cf0 (s, en) e) as [[st1 o] tg]. cbn [fst] in H.
     specialize (IH st1 H). destruct (run cf0 st1 evs) as [st2 o2]. exact IH. }
   apply H. unfold load_ok. cbn. destruct (max_inb cf0); [apply N.le_0_l|exact I].
+Qed.
+
+(* ------------------------------------------------------------------ the missing link:
+   a request that is active at a peer has a substream being opened or a future in flight *)
+
+Definition covered (s : pst) (x : N * N) : Prop :=
+  (exists po, In po (pouts s) /\ (po_peer po, rid_po po) = x) \/
+  (exists f, In f (futs s) /\ (f_peer f, rid_f f) = x).
+
+Record Inv3 (s : pst) : Prop := mkInv3 {
+  inv_cov : forall x, In x (active s) -> covered s x;
+  inv_peer : forall x, In x (active s) -> In (fst x) (peers s)
+}.
+
+Lemma Inv3_init : Inv3 init_pst.
+Proof. constructor; intros x []. Qed.
+
+(* an id that occurs at most once identifies its entry *)
+Lemma cnt_le1_eq {A} (f : A -> N) l x y :
+  (cnt (f x) (map f l) <= 1)%nat -> In x l -> In y l -> f y = f x -> x = y.
+Proof.
+  induction l as [|a l IH]; [intros _ []|].
+  cbn [map In]. rewrite cnt_cons. intros C [Hx|Hx] [Hy|Hy] E.
+  - congruence.
+  - subst a. rewrite N.eqb_refl in C.
+    assert (1 <= cnt (f x) (map f l))%nat by (apply cnt_pos_in; rewrite <- E; apply in_map; exact Hy). lia.
+  - subst a. rewrite E, N.eqb_refl in C.
+    assert (1 <= cnt (f x) (map f l))%nat by (apply cnt_pos_in; apply in_map; exact Hx). lia.
+  - apply IH; auto. destruct (f x =? f a); lia.
+Qed.
+
+Lemma po_unique s tr po po' :
+  Inv s tr -> In po (pouts s) -> In po' (pouts s) -> rid_po po' = rid_po po -> po = po'.
+Proof.
+  intros I H1 H2 E. apply (cnt_le1_eq rid_po (pouts s)); auto.
+  pose proof (inv_ctx _ _ I (rid_po po)). unf. lia.
+Qed.
+
+Lemma fut_unique s tr f g :
+  Inv s tr -> In f (futs s) -> In g (futs s) -> rid_f g = rid_f f -> f = g.
+Proof.
+  intros I H1 H2 E. apply (cnt_le1_eq rid_f (futs s)); auto.
+  pose proof (inv_ctx _ _ I (rid_f f)). unf. lia.
+Qed.
+
+Lemma covered_mono s s' x :
+  (forall po, In po (pouts s) -> In po (pouts s')) ->
+  (forall f, In f (futs s) -> exists g, In g (futs s') /\ (f_peer g, rid_f g) = (f_peer f, rid_f f)) ->
+  covered s x -> covered s' x.
+Proof.
+  intros HP HF [[po [H E]]|[f [H E]]].
+  - left. exists po. split; [apply HP; exact H|exact E].
+  - right. destruct (HF f H) as [g [Hg Eg]]. exists g. split; [exact Hg|congruence].
+Qed.
+
+Lemma self_fut s f : In f (futs s) -> exists g, In g (futs s) /\ (f_peer g, rid_f g) = (f_peer f, rid_f f).
+Proof. intros H. exists f. auto. Qed.
+
+(* ---- settle / complete ---- *)
+Lemma settle_Inv3 s p rid res :
+  Inv3 s -> Inv3 (fst (settle s p rid res)).
+Proof.
+  intros [C P]. unfold settle. destruct (memN p (peers s) && memP (p, rid) (active s)); cbn [fst]; [|constructor; auto].
+  constructor; simp_sets.
+  - intros x H. apply in_removeP in H. destruct H as [H _].
+    eapply covered_mono; [| |exact (C x H)]; simp_sets; auto using self_fut.
+  - intros x H. apply in_removeP in H. exact (P x (proj1 H)).
+Qed.
+
+Lemma complete_Inv3 s tr f res :
+  Inv s tr -> Inv3 s -> (forall g, In g (futs s) -> rid_f g = rid_f f -> g = f) ->
+  Inv3 (fst (complete s f res)).
+Proof.
+  intros I [C P] U. unfold complete, settle. simp_sets.
+  assert (Hcov : forall x, In x (active s) -> x <> (f_peer f, rid_f f) ->
+                           covered (set_futs s (drop_fut f (futs s))) x).
+  { intros x H Hne. destruct (C x H) as [[po [Hpo E]]|[g [Hg E]]].
+    - left. exists po. simp_sets. auto.
+    - right. exists g. simp_sets. split; [|exact E]. unfold drop_fut. apply filter_In. split; [exact Hg|].
+      destruct (N.eqb_spec (q_rid (f_req g)) (q_rid (f_req f))) as [E2|E2]; [|reflexivity].
+      exfalso. apply Hne. rewrite <- E. rewrite (U g Hg E2). reflexivity. }
+  destruct (memN (f_peer f) (peers s) && memP (f_peer f, q_rid (f_req f)) (active s)) eqn:Cond; cbn [fst].
+  - constructor; simp_sets.
+    + intros x H. apply in_removeP in H. destruct H as [H Hne].
+      destruct (Hcov x H Hne) as [[po [Hpo E]]|[g [Hg E]]]; [left; exists po|right; exists g]; simp_sets; auto.
+    + intros x H. apply in_removeP in H. exact (P x (proj1 H)).
+  - constructor; simp_sets; [|exact P].
+    intros x H. destruct (pair_eqb_spec x (f_peer f, rid_f f)) as [->|Hne].
+    + exfalso. apply andb_false_iff in Cond. destruct Cond as [Cond|Cond].
+      * pose proof (P _ H) as Hp. cbn [fst] in Hp. apply memN_in in Hp. congruence.
+      * apply memP_in in H. unfold rid_f in H. congruence.
+    + destruct (Hcov x H Hne) as [[po [Hpo E]]|[g [Hg E]]]; [left; exists po|right; exists g]; simp_sets; auto.
+Qed.
+
+Lemma complete_futs_sub s f res g : In g (futs (fst (complete s f res))) -> In g (futs s).
+Proof. pose proof (complete_Moves s f res) as C. destruct (complete s f res) as [s' o]. cbn [fst]. apply C. Qed.
+
+Lemma complete_all_Inv3 l : forall s tr res,
+  Inv s tr -> Inv3 s ->
+  (forall f po, In f l -> In po (pouts s) -> rid_po po <> rid_f f) ->
+  (forall f g, In f l -> In g (futs s) -> rid_f g = rid_f f -> g = f) ->
+  Inv3 (fst (complete_all s l res)).
+Proof.
+  induction l as [|f l IH]; intros s tr res I I3 H U; cbn [complete_all fst]; [exact I3|].
+  pose proof (complete_Inv3 s tr f res I I3 (fun g Hg E => U f g (or_introl eq_refl) Hg E)) as J3.
+  destruct (complete_Inv s tr f res I (fun po Hpo => H f po (or_introl eq_refl) Hpo)) as [I1 P1].
+  pose proof (complete_futs_sub s f res) as FS.
+  destruct (complete s f res) as [s1 o1]. cbn [fst snd] in *.
+  specialize (IH s1 (tr ++ o1) res I1 J3).
+  destruct (complete_all s1 l res) as [s2 o2]. cbn [fst] in *. apply IH.
+  - intros g po Hg Hpo. rewrite P1 in Hpo. apply (H g po); [right; exact Hg|exact Hpo].
+  - intros g h Hg Hh E. apply (U g h); [right; exact Hg|apply FS; exact Hh|exact E].
+Qed.
+
+(* ---- the handlers ---- *)
+Lemma send_Inv3 s p dial len tag ok dok sid :
+  Inv3 s -> Inv3 (fst (h_send s p dial len tag ok dok sid)).
+Proof.
+  intros [C P]. unfold h_send. simp_sets.
+  destruct (memN p (peers s)) eqn:Mp; [destruct ok|destruct dial; cbn [negb]; [destruct dok|]]; cbn [fst];
+    try (constructor; simp_sets; [intros x H; eapply covered_mono; [| |exact (C x H)]; simp_sets; auto using self_fut|exact P]).
+  constructor; simp_sets.
+  - intros x H. apply in_app_or in H. destruct H as [H|[<-|[]]].
+    + eapply covered_mono; [| |exact (C x H)]; simp_sets; auto using self_fut.
+      intros po Hpo. apply in_or_app. left. exact Hpo.
+    + left. eexists. simp_sets. split; [apply in_or_app; right; left; reflexivity|reflexivity].
+  - intros x H. apply in_app_or in H. destruct H as [H|[<-|[]]]; [exact (P x H)|].
+    cbn [fst]. apply memN_in. exact Mp.
+Qed.
+
+Lemma number_pouts_cover p sid l d :
+  In d l -> exists po, In po (number_pouts p sid l) /\ po_peer po = p /\ rid_po po = rid_d d.
+Proof.
+  revert sid. induction l as [|[a q] l IH]; intros sid; [intros []|].
+  cbn [In number_pouts]. intros [<-|H].
+  - eexists. split; [left; reflexivity|split; reflexivity].
+  - destruct (IH (sid + 1) H) as [po [A B]]. exists po. split; [right; exact A|exact B].
+Qed.
+
+Lemma established_Inv3 s p ok sid :
+  Inv3 s -> Inv3 (fst (h_established s p ok sid)).
+Proof.
+  intros [C P]. unfold h_established. destruct (memN p (peers s)); cbn [fst]; [constructor; auto|]. simp_sets.
+  assert (Hsame : forall l, Inv3 (set_dials s l)).
+  { intros l. constructor; simp_sets; [|exact P].
+    intros x H. eapply covered_mono; [| |exact (C x H)]; simp_sets; auto using self_fut. }
+  destruct (filter (fun d : N * req => fst d =? p) (dials s)) as [|d0 mine]; [|destruct ok]; cbn [fst].
+  - constructor; simp_sets.
+    + intros x H. eapply covered_mono; [| |exact (C x H)]; simp_sets; auto using self_fut.
+    + intros x H. apply in_or_app. left. exact (P x H).
+  - constructor; simp_sets.
+    + intros x H. apply in_app_or in H. destruct H as [H|H].
+      * eapply covered_mono; [| |exact (C x H)]; simp_sets; auto using self_fut.
+        intros po Hpo. apply in_or_app. left. exact Hpo.
+      * apply in_map_iff in H. destruct H as [d [<- Hd]].
+        destruct (number_pouts_cover p sid (d0 :: mine) d Hd) as [po [A [B1 B2]]].
+        left. exists po. simp_sets. split; [apply in_or_app; right; exact A|].
+        rewrite B1, B2. reflexivity.
+    + intros x H. apply in_or_app. apply in_app_or in H. destruct H as [H|H]; [left; exact (P x H)|].
+      apply in_map_iff in H. destruct H as [d [<- Hd]]. right. left. reflexivity.
+  - apply Hsame.
+Qed.
+
+Lemma closed_Inv3 s p : Inv3 s -> Inv3 (fst (h_closed s p)).
+Proof.
+  intros [C P]. unfold h_closed. simp_sets. destruct (memN p (peers s)) eqn:Mp; cbn [fst].
+  - constructor; simp_sets.
+    + intros x H. apply filter_In in H. destruct H as [H Hp].
+      destruct (C x H) as [[po [Hpo E]]|[g [Hg E]]].
+      * left. exists po. simp_sets. split; [|exact E]. apply filter_In. split; [exact Hpo|].
+        rewrite <- E in Hp. exact Hp.
+      * right. exists g. simp_sets. auto.
+    + intros x H. apply filter_In in H. destruct H as [H Hp]. apply filter_In. split; [exact (P x H)|exact Hp].
+  - constructor; simp_sets; [|exact P].
+    intros x H. destruct (C x H) as [[po [Hpo E]]|[g [Hg E]]].
+    + left. exists po. simp_sets. split; [|exact E]. apply filter_In. split; [exact Hpo|].
+      destruct (N.eqb_spec (po_peer po) p) as [E2|]; [|reflexivity].
+      exfalso. pose proof (P x H) as Hx. rewrite <- E in Hx. cbn [fst] in Hx. rewrite E2 in Hx.
+      apply memN_in in Hx. congruence.
+    + right. exists g. simp_sets. auto.
+Qed.
+
+Lemma dialfail_Inv3 s p : Inv3 s -> Inv3 (fst (h_dialfail s p)).
+Proof.
+  intros [C P]. unfold h_dialfail. cbn [fst]. constructor; simp_sets; [|exact P].
+  intros x H. eapply covered_mono; [| |exact (C x H)]; simp_sets; auto using self_fut.
+Qed.
+
+(* covering after the found pending-outbound entry was dropped *)
+Lemma cover_drop_po s tr po x :
+  Inv s tr -> In po (pouts s) -> covered s x -> x <> (po_peer po, rid_po po) ->
+  covered (set_pouts s (drop_po po (pouts s))) x.
+Proof.
+  intros I Hin [[po' [Hpo E]]|[g [Hg E]]] Hne.
+  - left. exists po'. simp_sets. split; [|exact E]. unfold drop_po. apply filter_In. split; [exact Hpo|].
+    destruct (N.eqb_spec (q_rid (po_req po')) (q_rid (po_req po))) as [E2|]; [|reflexivity].
+    exfalso. apply Hne. rewrite <- E. rewrite (po_unique _ _ _ _ I Hin Hpo E2). reflexivity.
+  - right. exists g. simp_sets. auto.
+Qed.
+
+Lemma openfail_Inv3 s tr sid u : Inv s tr -> Inv3 s -> Inv3 (fst (h_openfail s sid u)).
+Proof.
+  intros I [C P]. unfold h_openfail. destruct (find_po sid (pouts s)) as [po|] eqn:F; cbn [fst]; [|constructor; auto].
+  pose proof (find_in _ _ _ F) as [Hin _].
+  constructor; simp_sets.
+  - intros x H. apply in_removeP in H. destruct H as [H Hne].
+    destruct (cover_drop_po s tr po x I Hin (C x H) Hne) as [[po' [A B]]|[g [A B]]];
+      [left; exists po'|right; exists g]; simp_sets; auto.
+  - intros x H. apply in_removeP in H. exact (P x (proj1 H)).
+Qed.
+
+Lemma opened_body_Inv3 cf0 s tr po c gate now :
+  Inv s tr -> Inv3 s -> In po (pouts s) -> Inv3 (fst (opened_body cf0 s po c gate now)).
+Proof.
+  intros I [C P] Hin. unfold opened_body.
+  pose proof (inv_po _ _ I po Hin) as Hact.
+  assert (Hsettle : forall res,
+     Inv3 (fst (settle (set_pouts s (drop_po po (pouts s))) (po_peer po) (q_rid (po_req po)) res))).
+  { intros res. unfold settle. simp_sets.
+    assert (Cond : memN (po_peer po) (peers s) && memP (po_peer po, q_rid (po_req po)) (active s) = true).
+    { apply andb_true_intro. split; [apply memN_in; exact (P _ Hact)|apply memP_in; exact Hact]. }
+    rewrite Cond. cbn [fst]. constructor; simp_sets.
+    - intros x H. apply in_removeP in H. destruct H as [H Hne].
+      destruct (cover_drop_po s tr po x I Hin (C x H) Hne) as [[po' [A B]]|[g [A B]]];
+        [left; exists po'|right; exists g]; simp_sets; auto.
+    - intros x H. apply in_removeP in H. exact (P x (proj1 H)). }
+  assert (Hpush : forall g, (f_peer g, rid_f g) = (po_peer po, rid_po po) ->
+     Inv3 (set_futs (set_pouts s (drop_po po (pouts s))) (futs (set_pouts s (drop_po po (pouts s))) ++ [g]))).
+  { intros g Eg. constructor; simp_sets; [|exact P].
+    intros x H. destruct (pair_eqb_spec x (po_peer po, rid_po po)) as [->|Hne].
+    - right. exists g. simp_sets. split; [apply in_or_app; right; left; reflexivity|exact Eg].
+    - destruct (cover_drop_po s tr po x I Hin (C x H) Hne) as [[po' [A B]]|[g' [A B]]];
+        [left; exists po'|right; exists g']; simp_sets; auto.
+      split; [apply in_or_app; left; exact A|exact B]. }
+  destruct (max_size cf0 <? q_len (po_req po)); [apply Hsettle|].
+  destruct gate as [|[g|g|]]; try apply Hsettle; apply Hpush; reflexivity.
+Qed.
+
+Lemma opened_Inv3 cf0 s tr sid c gate now :
+  Inv s tr -> Inv3 s -> Inv3 (fst (h_opened cf0 s sid c gate now)).
+Proof.
+  intros I I3. unfold h_opened. destruct (find_po sid (pouts s)) as [po|] eqn:F; cbn [fst]; [|exact I3].
+  pose proof (opened_body_Inv3 cf0 s tr po c gate now I I3 (proj1 (find_in _ _ _ F))) as H.
+  destruct (opened_body _ _ _ _ _ _) as [s1 o]. exact H.
+Qed.
+
+Lemma Inv3_futs_map s (h : fut -> fut) :
+  (forall f, (f_peer (h f), rid_f (h f)) = (f_peer f, rid_f f)) ->
+  Inv3 s -> Inv3 (set_futs s (map h (futs s))).
+Proof.
+  intros Hh [C P]. constructor; simp_sets; [|exact P].
+  intros x H. eapply covered_mono; [| |exact (C x H)]; simp_sets; auto.
+  intros f Hf. exists (h f). split; [apply in_map; exact Hf|apply Hh].
+Qed.
+
+Lemma unblock_Inv3 cf0 s tr c now : Inv s tr -> Inv3 s -> Inv3 (fst (fut_unblock cf0 s c now)).
+Proof.
+  intros I I3. unfold fut_unblock. destruct (find_fut c (futs s)) as [f|] eqn:F; cbn [fst]; [|exact I3].
+  destruct (f_wait f); cbn [fst]; [exact I3|]. destruct (f_cancel f).
+  - pose proof (complete_Inv3 s tr f (RErr E_CANCELED) I I3
+                  (fun g Hg E => eq_sym (fut_unique _ _ _ _ I (find_fut_in _ _ _ F) Hg E))) as H.
+    destruct (complete s f _) as [s1 o]. exact H.
+  - cbn [fst]. apply Inv3_futs_map; [|exact I3]. intros g. destruct (f_chan g =? c); reflexivity.
+Qed.
+
+Lemma breakw_Inv3 s tr c : Inv s tr -> Inv3 s -> Inv3 (fst (fut_breakw s c)).
+Proof.
+  intros I I3. unfold fut_breakw. destruct (find_fut c (futs s)) as [f|] eqn:F; cbn [fst]; [|exact I3].
+  destruct (f_wait f); cbn [fst]; [exact I3|].
+  exact (complete_Inv3 s tr f _ I I3 (fun g Hg E => eq_sym (fut_unique _ _ _ _ I (find_fut_in _ _ _ F) Hg E))).
+Qed.
+
+Lemma read_Inv3 s tr c res : Inv s tr -> Inv3 s -> Inv3 (fst (fut_read s c res)).
+Proof.
+  intros I I3. unfold fut_read. destruct (find_fut c (futs s)) as [f|] eqn:F; cbn [fst]; [|exact I3].
+  destruct (f_wait f); cbn [fst]; [|exact I3].
+  exact (complete_Inv3 s tr f _ I I3 (fun g Hg E => eq_sym (fut_unique _ _ _ _ I (find_fut_in _ _ _ F) Hg E))).
+Qed.
+
+Lemma advance_Inv3 s tr now : Inv s tr -> Inv3 s -> Inv3 (fst (fut_advance s now)).
+Proof.
+  intros I I3. unfold fut_advance. apply (complete_all_Inv3 _ s tr); auto.
+  - intros f po Hf Hpo. apply filter_In in Hf. exact (fut_in_not_po _ _ _ I (proj1 Hf) po Hpo).
+  - intros f g Hf Hg E. apply filter_In in Hf. exact (eq_sym (fut_unique _ _ _ _ I (proj1 Hf) Hg E)).
+Qed.
+
+Lemma cancel_Inv3 s tr rid : Inv s tr -> Inv3 s -> Inv3 (fst (h_cancel s rid)).
+Proof.
+  intros I I3. unfold h_cancel. destruct (find _ (futs s)) as [f|] eqn:F; cbn [fst]; [|exact I3].
+  apply find_some in F. destruct F as [Hf _].
+  destruct (f_wait f); cbn [fst].
+  - exact (complete_Inv3 s tr f _ I I3 (fun g Hg E => eq_sym (fut_unique _ _ _ _ I Hf Hg E))).
+  - apply Inv3_futs_map; [|exact I3]. intros g. destruct (q_rid (f_req g) =? rid); reflexivity.
+Qed.
+
+Lemma Inv3_same_ledger s s' : Inv3 s -> same_ledger s s' -> Inv3 s'.
+Proof.
+  intros [C P] (D & A & Po & F & N & Pe). constructor; rewrite A.
+  - intros x H. destruct (C x H) as [[po [Hpo E]]|[g [Hg E]]]; [left; exists po|right; exists g];
+      rewrite ?Po, ?F; auto.
+  - rewrite Pe. exact P.
+Qed.
+
+Lemma step_Inv3 cf0 s en e tr :
+  Inv s tr -> Inv3 s -> Inv3 (fst (fst (fst (step cf0 (s, en) e)))).
+Proof.
+  intros I I3. destruct e; cbn [step].
+  - pose proof (send_Inv3 s p dial len tag (open_ok p en) (p <? ndial cf0) (next_sid en) I3) as H.
+    destruct (h_send _ _ _ _ _ _ _ _) as [s1 o]. exact H.
+  - pose proof (cancel_Inv3 s tr rid I I3) as H. destruct (h_cancel s rid) as [s1 o]. exact H.
+  - destruct (conn_of p en); cbn [fst]; [exact I3|].
+    pose proof (established_Inv3 s p (negb broken) (next_sid en) I3) as H.
+    destruct (h_established _ _ _ _) as [s1 o]. exact H.
+  - destruct (conn_of p en); cbn [fst]; [|exact I3].
+    pose proof (closed_Inv3 s p I3) as H. destruct (h_closed s p) as [s1 o]. exact H.
+  - pose proof (dialfail_Inv3 s p I3) as H. destruct (h_dialfail s p) as [s1 o]. exact H.
+  - destruct (nth_mod k (opens en)) as [[sid q]|]; cbn [fst]; [|exact I3].
+    pose proof (opened_Inv3 cf0 s tr sid (N.of_nat (length (chans en))) (N.min gate 2) (now en) I I3) as H.
+    destruct (h_opened _ _ _ _ _ _) as [s1 o]. exact H.
+  - destruct (nth_mod k (opens en)) as [[sid q]|]; cbn [fst]; [|exact I3].
+    pose proof (openfail_Inv3 s tr sid unsupported I I3) as H. destruct (h_openfail _ _ _) as [s1 o]. exact H.
+  - destruct (chans en) as [|ch0 chs] eqn:CH; cbn [fst]; [exact I3|].
+    destruct (nth_error _ _) as [ch|]; cbn [fst]; [|exact I3].
+    destruct (c_gate ch =? 0); cbn [fst]; [|exact I3].
+    pose proof (unblock_Inv3 cf0 s tr (k mod N.of_nat (length (ch0 :: chs))) (now en) I I3) as H.
+    destruct (fut_unblock _ _ _ _) as [s1 o1]. cbn [fst] in H.
+    pose proof (rsp_gate_same s1 (k mod N.of_nat (length (ch0 :: chs))) true) as [H2 _].
+    destruct (rsp_gate _ _ _) as [s2 o2]. cbn [fst] in *. exact (Inv3_same_ledger _ _ H H2).
+  - destruct (chans en) as [|ch0 chs] eqn:CH; cbn [fst]; [exact I3|].
+    destruct (nth_error _ _) as [ch|]; cbn [fst]; [|exact I3].
+    destruct (c_gate ch =? 2); cbn [fst]; [exact I3|].
+    pose proof (breakw_Inv3 s tr (k mod N.of_nat (length (ch0 :: chs))) I I3) as H.
+    destruct (fut_breakw _ _) as [s1 o1]. cbn [fst] in H.
+    pose proof (rsp_gate_same s1 (k mod N.of_nat (length (ch0 :: chs))) false) as [H2 _].
+    destruct (rsp_gate _ _ _) as [s2 o2]. cbn [fst] in *. exact (Inv3_same_ledger _ _ H H2).
+  - destruct (chans en) as [|ch0 chs] eqn:CH; cbn [fst]; [exact I3|].
+    destruct (nth_error _ _) as [ch|]; cbn [fst]; [|exact I3].
+    destruct (c_out ch && c_seen ch); cbn [fst]; [|exact I3].
+    match goal with |- context [fut_read s ?c ?r] =>
+      pose proof (read_Inv3 s tr c r I I3) as H; destruct (fut_read s c r) as [s1 o] end. exact H.
+  - destruct (chans en) as [|ch0 chs] eqn:CH; cbn [fst]; [exact I3|].
+    destruct (nth_error _ _) as [ch|]; cbn [fst]; [|exact I3].
+    destruct (c_out ch); [destruct (c_seen ch)|]; cbn [fst]; try exact I3.
+    + match goal with |- context [fut_read s ?c ?r] =>
+        pose proof (read_Inv3 s tr c r I I3) as H; destruct (fut_read s c r) as [s1 o] end. exact H.
+    + match goal with |- context [h_inread s ?c ?g ?l ?t] =>
+        pose proof (inread_same s c g l t) as [H _]; destruct (h_inread s c g l t) as [s1 o] end.
+      exact (Inv3_same_ledger _ _ I3 H).
+  - destruct (chans en) as [|ch0 chs] eqn:CH; cbn [fst]; [exact I3|].
+    destruct (nth_error _ _) as [ch|]; cbn [fst]; [|exact I3].
+    destruct (c_out ch); [destruct (c_seen ch)|]; cbn [fst]; try exact I3.
+    + match goal with |- context [fut_read s ?c ?r] =>
+        pose proof (read_Inv3 s tr c r I I3) as H; destruct (fut_read s c r) as [s1 o] end. exact H.
+    + match goal with |- context [h_inread s ?c ?g ?l ?t] =>
+        pose proof (inread_same s c g l t) as [H _]; destruct (h_inread s c g l t) as [s1 o] end.
+      exact (Inv3_same_ledger _ _ I3 H).
+  - pose proof (advance_Inv3 s tr (now en + dt) I I3) as H.
+    destruct (fut_advance s (now en + dt)) as [s1 o]. cbn [fst] in *.
+    apply (Inv3_same_ledger s1); [exact H|].
+    unfold rsp_advance, same_ledger. simp_sets. repeat split; try lia; try reflexivity.
+  - destruct (conn_of p en); cbn [fst]; [|exact I3].
+    pose proof (inopen_same cf0 s p (N.of_nat (length (chans en)))) as [H _].
+    destruct (h_inopen _ _ _ _) as [s1 o]. exact (Inv3_same_ledger _ _ I3 H).
+  - destruct (chans en) as [|ch0 chs] eqn:CH; cbn [fst]; [exact I3|].
+    destruct (nth_error _ _) as [ch|]; cbn [fst]; [|exact I3].
+    destruct (negb (c_out ch)); cbn [fst]; [|exact I3].
+    match goal with |- context [h_inread s ?c ?g ?l ?t] =>
+      pose proof (inread_same s c g l t) as [H _]; destruct (h_inread s c g l t) as [s1 o] end.
+    exact (Inv3_same_ledger _ _ I3 H).
+  - destruct (nth_mod k (hpend en)) as [irid|]; cbn [fst]; [|exact I3].
+    match goal with |- context [h_uresp cf0 s ?a ?b ?c ?f ?d ?e] =>
+      pose proof (uresp_same cf0 s a b c f d e) as [H _]; destruct (h_uresp cf0 s a b c f d e) as [s1 o] end.
+    exact (Inv3_same_ledger _ _ I3 H).
+  - destruct (nth_mod k (hpend en)) as [irid|]; cbn [fst]; [|exact I3].
+    unfold h_urej. cbn [fst]. apply (Inv3_same_ledger s); [exact I3|].
+    unfold same_ledger. simp_sets. repeat split; try lia; try reflexivity.
+  - cbn [fst]. exact I3.
+Qed.
+
+Lemma run_Inv3 cf0 evs : forall st tr,
+  Inv (fst st) tr -> Inv3 (fst st) -> Inv3 (fst (fst (run cf0 st evs))).
+Proof.
+  induction evs as [|e evs IH]; intros [s en] tr I I3; cbn [run fst]; [exact I3|].
+  pose proof (step_Inv cf0 s en e tr I) as H. pose proof (step_Inv3 cf0 s en e tr I I3) as H3.
+  destruct (step cf0 (s, en) e) as [[st1 o] tg]. cbn [fst snd] in *.
+  specialize (IH st1 (tr ++ o) H H3). destruct (run cf0 st1 evs) as [st2 o2]. exact IH.
+Qed.
+
+Lemma quiescent_settled s : Inv3 s -> quiescent s -> settled s.
+Proof.
+  intros [C _] (D & P & F). split; [exact D|].
+  destruct (active s) as [|x l] eqn:A; [reflexivity|].
+  destruct (C x (or_introl eq_refl)) as [[po [H _]]|[g [H _]]]; [rewrite P in H|rewrite F in H]; destruct H.
+Qed.
+
+(* Exactly one: once no dial, no substream opening and no request future is outstanding, every
+   request id handed out has exactly one terminal event unless the user asked to cancel it. *)
+Theorem exactly_one cf0 evs r :
+  let res := run cf0 (init_pst, init_env) evs in
+  quiescent (fst (fst res)) ->
+  In (OSent r) (snd res) ->
+  terms r (snd res) = 1%nat \/ In r (cancel_reqs evs).
+Proof.
+  intros res Q. apply exactly_one_settled. apply quiescent_settled; [|exact Q].
+  exact (run_Inv3 cf0 evs (init_pst, init_env) [] Inv_init Inv3_init).
+Qed.
+
+(* ------------------------------------------------------------------ what a handler can emit *)
+
+(* plain = neither ResponseReceived, RequestReceived nor the binding ghost *)
+Definition plain (x : out) : bool :=
+  match x with OSent _ | OFail _ _ | OWire _ _ _ | OFeed _ _ => true | _ => false end.
+Definition plainl (o : list out) : Prop := forallb plain o = true.
+
+Lemma plainl_nil : plainl [].
+Proof. reflexivity. Qed.
+Lemma plainl_app a b : plainl a -> plainl b -> plainl (a ++ b).
+Proof. unfold plainl. rewrite forallb_app. intros -> ->. reflexivity. Qed.
+Lemma plainl_cons x o : plain x = true -> plainl o -> plainl (x :: o).
+Proof. unfold plainl. cbn [forallb]. intros -> ->. reflexivity. Qed.
+Lemma plainl_map_fail {A} (g : A -> N) code l : plainl (map (fun a => OFail (g a) code) l).
+Proof. unfold plainl. induction l; cbn; auto. Qed.
+Lemma plainl_in o x : plainl o -> In x o -> plain x = true.
+Proof. unfold plainl. rewrite forallb_forall. auto. Qed.
+
+Lemma verdict_err_plain rid c : plainl (verdict rid (RErr c)).
+Proof. unfold verdict. destruct (c =? E_CANCELED); reflexivity. Qed.
+
+Lemma settle_err_plain s p rid c : plainl (snd (settle s p rid (RErr c))).
+Proof. unfold settle. destruct (_ && _); cbn [snd]; [apply verdict_err_plain|reflexivity]. Qed.
+
+Lemma complete_err_plain s f c : plainl (snd (complete s f (RErr c))).
+Proof. unfold complete. apply settle_err_plain. Qed.
+
+Lemma complete_all_err_plain l : forall s c, plainl (snd (complete_all s l (RErr c))).
+Proof.
+  induction l as [|f l IH]; intros s c; cbn [complete_all snd]; [reflexivity|].
+  pose proof (complete_err_plain s f c) as H. destruct (complete s f (RErr c)) as [s1 o1].
+  pose proof (IH s1 c) as H2. destruct (complete_all s1 l (RErr c)) as [s2 o2]. cbn [snd] in *.
+  apply plainl_app; assumption.
+Qed.
+
+Lemma send_plain s p dial len tag ok dok sid : plainl (snd (h_send s p dial len tag ok dok sid)).
+Proof. unfold h_send. repeat match goal with |- context [if ?x then _ else _] => destruct x end; reflexivity. Qed.
+
+Lemma established_plain s p ok sid : plainl (snd (h_established s p ok sid)).
+Proof.
+  unfold h_established. destruct (memN p (peers s)); [reflexivity|].
+  destruct (filter _ (dials s)); [reflexivity|]. destruct ok; [reflexivity|]. cbn [snd].
+  apply (plainl_map_fail (fun d : N * req => q_rid (snd d))).
+Qed.
+
+Lemma closed_plain s p : plainl (snd (h_closed s p)).
+Proof. unfold h_closed. destruct (memN p _); cbn [snd]; [apply (plainl_map_fail snd)|reflexivity]. Qed.
+
+Lemma dialfail_plain s p : plainl (snd (h_dialfail s p)).
+Proof. unfold h_dialfail. cbn [snd]. apply (plainl_map_fail (fun d : N * req => q_rid (snd d))). Qed.
+
+Lemma openfail_plain s sid u : plainl (snd (h_openfail s sid u)).
+Proof. unfold h_openfail. destruct (find_po sid (pouts s)); reflexivity. Qed.
+
+Lemma opened_body_plain cf0 s po c gate now : plainl (snd (opened_body cf0 s po c gate now)).
+Proof.
+  unfold opened_body. destruct (max_size cf0 <? _); [apply settle_err_plain|].
+  destruct gate as [|[g|g|]]; try apply settle_err_plain; reflexivity.
+Qed.
+
+Lemma unblock_plain cf0 s c now : plainl (snd (fut_unblock cf0 s c now)).
+Proof.
+  unfold fut_unblock. destruct (find_fut c (futs s)) as [f|]; [|reflexivity].
+  destruct (f_wait f); [reflexivity|]. destruct (f_cancel f); [|reflexivity].
+  pose proof (complete_err_plain s f E_CANCELED) as H. destruct (complete s f _) as [s1 o]. cbn [snd] in *.
+  apply plainl_cons; [reflexivity|exact H].
+Qed.
+
+Lemma breakw_plain s c : plainl (snd (fut_breakw s c)).
+Proof.
+  unfold fut_breakw. destruct (find_fut c (futs s)) as [f|]; [|reflexivity].
+  destruct (f_wait f); [reflexivity|apply complete_err_plain].
+Qed.
+
+Lemma read_err_plain s c e : plainl (snd (fut_read s c (RErr e))).
+Proof.
+  unfold fut_read. destruct (find_fut c (futs s)) as [f|]; [|reflexivity].
+  destruct (f_wait f); [apply complete_err_plain|reflexivity].
+Qed.
+
+Lemma advance_plain s now : plainl (snd (fut_advance s now)).
+Proof. unfold fut_advance. apply complete_all_err_plain. Qed.
+
+Lemma cancel_plain s rid : plainl (snd (h_cancel s rid)).
+Proof.
+  unfold h_cancel. destruct (find _ (futs s)) as [f|]; [|reflexivity].
+  destruct (f_wait f); [apply complete_err_plain|reflexivity].
+Qed.
+
+Lemma uresp_plain cf0 s irid len tag fb gate now : plainl (snd (h_uresp cf0 s irid len tag fb gate now)).
+Proof.
+  unfold h_uresp, feed. destruct (find_rs irid (rsps s)) as [rs|]; [|reflexivity].
+  destruct (s_w rs); [reflexivity|]. destruct fb; (destruct (max_size cf0 <? len); [reflexivity|]);
+  destruct gate as [|[g|g|]]; reflexivity.
+Qed.
+
+Lemma rsp_gate_plain s c ok : plainl (snd (rsp_gate s c ok)).
+Proof.
+  unfold rsp_gate. destruct (find _ (rsps s)) as [rs|]; [|reflexivity].
+  destruct (s_w rs) as [[[l t] d]|]; [|reflexivity]. unfold feed. destruct ok; destruct (s_fb rs); reflexivity.
+Qed.
+
+Lemma inread_bad_plain s c len tag : plainl (snd (h_inread s c false len tag)).
+Proof.
+  unfold h_inread. destruct (find_rd c (rdrs s)) as [rd|]; [|reflexivity].
+  destruct (_ && _); reflexivity.
+Qed.
+
+Lemma adv_out_plain s now : plainl (rsp_advance_out s now).
+Proof.
+  unfold rsp_advance_out, plainl. induction (rsps s) as [|a l IH]; [reflexivity|].
+  cbn [flat_map]. rewrite forallb_app, IH, andb_true_r. destruct (s_w a) as [[[x y] d]|]; [|reflexivity].
+  destruct (d <=? now); [|reflexivity]. unfold feed. destruct (s_fb a); reflexivity.
+Qed.
+
+(* a delivered response: exactly the verdict of the future that holds the carrier *)
+Lemma read_ok_shape s c len tag :
+  plainl (snd (fut_read s c (ROk len tag))) \/
+  exists f, find_fut c (futs s) = Some f /\ snd (fut_read s c (ROk len tag)) = [OResp (rid_f f) len tag].
+Proof.
+  unfold fut_read. destruct (find_fut c (futs s)) as [f|]; [|left; reflexivity].
+  destruct (f_wait f); [|left; reflexivity]. unfold complete, settle.
+  destruct (_ && _); cbn [snd]; [right; exists f; split; reflexivity|left; reflexivity].
+Qed.
+
+(* a request handed to the user: read from the reader of that carrier, which is gone afterwards *)
+Lemma inread_good_shape s c len tag :
+  (snd (h_inread s c true len tag) = [] \/
+   exists rd, find_rd c (rdrs s) = Some rd /\
+              snd (h_inread s c true len tag) = [OReq (r_irid rd) (r_peer rd) len tag]) /\
+  rdrs (fst (h_inread s c true len tag)) = drop_rd c (rdrs s).
+Proof.
+  unfold h_inread. destruct (find_rd c (rdrs s)) as [rd|] eqn:F.
+  - destruct (_ && _); cbn [fst snd]; simp_sets; (split; [|reflexivity]).
+    + right. exists rd. split; reflexivity.
+    + left. reflexivity.
+  - cbn [fst snd]. split; [left; reflexivity|].
+    (* nothing to drop *)
+    unfold drop_rd, find_rd in *. induction (rdrs s) as [|a l IH]; [reflexivity|].
+    cbn [find filter] in *. destruct (r_chan a =? c); [discriminate|]. cbn [negb]. f_equal. apply IH. exact F.
+Qed.
+
+(* ------------------------------------------------------------------ how futures and readers evolve *)
+
+Definition calm (x : out) : bool :=
+  match x with OBind _ _ | OReq _ _ _ _ => false | _ => true end.
+Definition calml (o : list out) : Prop := forallb calm o = true.
+
+Lemma plain_calm o : plainl o -> calml o.
+Proof.
+  unfold plainl, calml. rewrite !forallb_forall. intros H x Hx. specialize (H x Hx). destruct x; try discriminate; reflexivity.
+Qed.
+Lemma calml_app a b : calml a -> calml b -> calml (a ++ b).
+Proof. unfold calml. rewrite forallb_app. intros -> ->. reflexivity. Qed.
+Lemma calml_nobind o c r : calml o -> ~ In (OBind c r) o.
+Proof. unfold calml. rewrite forallb_forall. intros H Hin. specialize (H _ Hin). discriminate. Qed.
+Lemma calml_noreq o : calml o -> has_req o = false.
+Proof.
+  unfold calml, has_req. intros H. apply not_true_is_false. intros E. apply existsb_exists in E.
+  destruct E as [x [Hx Ex]]. rewrite forallb_forall in H. specialize (H x Hx). destruct x; discriminate.
+Qed.
+
+(* every future of s' continues a future of s (same carrier, same request) *)
+Definition FutsPrev (s s' : pst) : Prop :=
+  forall g, In g (futs s') -> exists f, In f (futs s) /\ f_chan f = f_chan g /\ rid_f f = rid_f g.
+
+(* quiet step: no binding, no RequestReceived, futures only continue, readers untouched *)
+Definition Q (s s' : pst) (o : list out) : Prop := calml o /\ FutsPrev s s' /\ rdrs s' = rdrs s.
+
+Lemma FutsPrev_same s s' : futs s' = futs s -> FutsPrev s s'.
+Proof. intros E g Hg. rewrite E in Hg. exists g. auto. Qed.
+Lemma FutsPrev_sub s s' : (forall g, In g (futs s') -> In g (futs s)) -> FutsPrev s s'.
+Proof. intros H g Hg. exists g. auto. Qed.
+Lemma FutsPrev_trans s s1 s2 : FutsPrev s s1 -> FutsPrev s1 s2 -> FutsPrev s s2.
+Proof.
+  intros A B g Hg. destruct (B g Hg) as [f1 [H1 [E1 E2]]]. destruct (A f1 H1) as [f [H [E3 E4]]].
+  exists f. repeat split; congruence.
+Qed.
+Lemma Q_trans s s1 s2 o1 o2 : Q s s1 o1 -> Q s1 s2 o2 -> Q s s2 (o1 ++ o2).
+Proof.
+  intros (A1 & A2 & A3) (B1 & B2 & B3). split; [|split]; [apply calml_app; auto|eapply FutsPrev_trans; eauto|congruence].
+Qed.
+Lemma Q_refl s : Q s s [].
+Proof. split; [reflexivity|split; [apply FutsPrev_same; reflexivity|reflexivity]]. Qed.
+
+Ltac futs_crush :=
+  repeat match goal with
+         | |- context [match ?x with _ => _ end] => destruct x
+         end; cbn; reflexivity.
+
+Lemma send_futs s p dial len tag ok dok sid : futs (fst (h_send s p dial len tag ok dok sid)) = futs s.
+Proof. unfold h_send. futs_crush. Qed.
+Lemma established_futs s p ok sid : futs (fst (h_established s p ok sid)) = futs s.
+Proof. unfold h_established. futs_crush. Qed.
+Lemma closed_futs s p : futs (fst (h_closed s p)) = futs s.
+Proof. unfold h_closed. futs_crush. Qed.
+Lemma dialfail_futs s p : futs (fst (h_dialfail s p)) = futs s.
+Proof. reflexivity. Qed.
+Lemma openfail_futs s sid u : futs (fst (h_openfail s sid u)) = futs s.
+Proof. unfold h_openfail. futs_crush. Qed.
+
+Lemma send_Q s p dial len tag ok dok sid : Q s (fst (h_send s p dial len tag ok dok sid)) (snd (h_send s p dial len tag ok dok sid)).
+Proof. split; [|split]; [apply plain_calm, send_plain|apply FutsPrev_same, send_futs|apply send_io]. Qed.
+Lemma established_Q s p ok sid : Q s (fst (h_established s p ok sid)) (snd (h_established s p ok sid)).
+Proof. split; [|split]; [apply plain_calm, established_plain|apply FutsPrev_same, established_futs|apply established_io]. Qed.
+Lemma closed_Q s p : Q s (fst (h_closed s p)) (snd (h_closed s p)).
+Proof. split; [|split]; [apply plain_calm, closed_plain|apply FutsPrev_same, closed_futs|apply closed_io]. Qed.
+Lemma dialfail_Q s p : Q s (fst (h_dialfail s p)) (snd (h_dialfail s p)).
+Proof. split; [|split]; [apply plain_calm, dialfail_plain|apply FutsPrev_same, dialfail_futs|apply dialfail_io]. Qed.
+Lemma openfail_Q s sid u : Q s (fst (h_openfail s sid u)) (snd (h_openfail s sid u)).
+Proof. split; [|split]; [apply plain_calm, openfail_plain|apply FutsPrev_same, openfail_futs|apply openfail_io]. Qed.
+
+Lemma complete_FutsPrev s f res : FutsPrev s (fst (complete s f res)).
+Proof. apply FutsPrev_sub. apply complete_futs_sub. Qed.
+
+Lemma complete_all_futs_sub l : forall s res g, In g (futs (fst (complete_all s l res))) -> In g (futs s).
+Proof.
+  induction l as [|f l IH]; intros s res g; cbn [complete_all fst]; [auto|].
+  pose proof (complete_futs_sub s f res) as A. destruct (complete s f res) as [s1 o1]. cbn [fst] in A.
+  pose proof (IH s1 res g) as B. destruct (complete_all s1 l res) as [s2 o2]. cbn [fst] in *. auto.
+Qed.
+
+Lemma map_FutsPrev s (h : fut -> fut) :
+  (forall f, f_chan (h f) = f_chan f /\ rid_f (h f) = rid_f f) -> FutsPrev s (set_futs s (map h (futs s))).
+Proof.
+  intros Hh g Hg. simp_sets. apply in_map_iff in Hg. destruct Hg as [f [<- Hf]].
+  exists f. destruct (Hh f) as [A B]. auto.
+Qed.
+
+Lemma unblock_Q cf0 s c now : Q s (fst (fut_unblock cf0 s c now)) (snd (fut_unblock cf0 s c now)).
+Proof.
+  split; [|split]; [apply plain_calm, unblock_plain| |apply unblock_io].
+  unfold fut_unblock. destruct (find_fut c (futs s)) as [f|]; [|apply FutsPrev_same; reflexivity].
+  destruct (f_wait f); [apply FutsPrev_same; reflexivity|]. destruct (f_cancel f).
+  - pose proof (complete_FutsPrev s f (RErr E_CANCELED)) as H. destruct (complete s f _) as [s1 o]. exact H.
+  - cbn [fst]. apply map_FutsPrev. intros g. destruct (f_chan g =? c); split; reflexivity.
+Qed.
+
+Lemma breakw_Q s c : Q s (fst (fut_breakw s c)) (snd (fut_breakw s c)).
+Proof.
+  split; [|split]; [apply plain_calm, breakw_plain| |apply breakw_io].
+  unfold fut_breakw. destruct (find_fut c (futs s)) as [f|]; [|apply FutsPrev_same; reflexivity].
+  destruct (f_wait f); [apply FutsPrev_same; reflexivity|apply complete_FutsPrev].
+Qed.
+
+Lemma read_calm s c res : calml (snd (fut_read s c res)).
+Proof.
+  destruct res as [l t|e]; [|apply plain_calm, read_err_plain].
+  destruct (read_ok_shape s c l t) as [H|[f [_ H]]]; [apply plain_calm; exact H|]. rewrite H. reflexivity.
+Qed.
+
+Lemma read_Q s c res : Q s (fst (fut_read s c res)) (snd (fut_read s c res)).
+Proof.
+  split; [|split]; [apply read_calm| |apply read_io].
+  unfold fut_read. destruct (find_fut c (futs s)) as [f|]; [|apply FutsPrev_same; reflexivity].
+  destruct (f_wait f); [apply complete_FutsPrev|apply FutsPrev_same; reflexivity].
+Qed.
+
+Lemma advance_Q s now : Q s (fst (fut_advance s now)) (snd (fut_advance s now)).
+Proof.
+  split; [|split]; [apply plain_calm, advance_plain| |apply complete_all_io].
+  apply FutsPrev_sub. apply complete_all_futs_sub.
+Qed.
+
+Lemma cancel_Q s rid : Q s (fst (h_cancel s rid)) (snd (h_cancel s rid)).
+Proof.
+  split; [|split]; [apply plain_calm, cancel_plain| |apply cancel_io].
+  unfold h_cancel. destruct (find _ (futs s)) as [f|]; [|apply FutsPrev_same; reflexivity].
+  destruct (f_wait f); [apply complete_FutsPrev|].
+  cbn [fst]. apply map_FutsPrev. intros g. destruct (q_rid (f_req g) =? rid); split; reflexivity.
+Qed.
+
+Lemma same_ledger_Q s s' o : same_ledger s s' -> calml o -> rdrs s' = rdrs s -> Q s s' o.
+Proof. intros (_ & _ & _ & F & _) C R. split; [|split]; [exact C|apply FutsPrev_same; exact F|exact R]. Qed.
+
+Lemma uresp_rdrs cf0 s irid len tag fb gate now : rdrs (fst (h_uresp cf0 s irid len tag fb gate now)) = rdrs s.
+Proof. unfold h_uresp, feed. futs_crush. Qed.
+Lemma rsp_gate_rdrs s c ok : rdrs (fst (rsp_gate s c ok)) = rdrs s.
+Proof. unfold rsp_gate. futs_crush. Qed.
+
+Lemma uresp_Q cf0 s irid len tag fb gate now :
+  Q s (fst (h_uresp cf0 s irid len tag fb gate now)) (snd (h_uresp cf0 s irid len tag fb gate now)).
+Proof. apply same_ledger_Q; [apply uresp_same|apply plain_calm, uresp_plain|apply uresp_rdrs]. Qed.
+Lemma rsp_gate_Q s c ok : Q s (fst (rsp_gate s c ok)) (snd (rsp_gate s c ok)).
+Proof. apply same_ledger_Q; [apply rsp_gate_same|apply plain_calm, rsp_gate_plain|apply rsp_gate_rdrs]. Qed.
+
+(* the three handlers that are not quiet *)
+Lemma opened_body_futs cf0 s po c gate now g :
+  In g (futs (fst (opened_body cf0 s po c gate now))) ->
+  In g (futs s) \/ (f_chan g = c /\ rid_f g = rid_po po).
+Proof.
+  unfold opened_body.
+  assert (Hs : forall res, In g (futs (fst (settle (set_pouts s (drop_po po (pouts s))) (po_peer po) (q_rid (po_req po)) res))) -> In g (futs s)).
+  { intros res. unfold settle. destruct (_ && _); cbn [fst]; simp_sets; auto. }
+  destruct (max_size cf0 <? _); [intros H0; left; exact (Hs _ H0)|].
+  destruct gate as [|[x|x|]]; try (intros H0; left; exact (Hs _ H0)); cbn [fst]; simp_sets; intros H0;
+    apply in_app_or in H0; destruct H0 as [H0|[<-|[]]]; auto.
+Qed.
+
+Lemma opened_body_rdrs cf0 s po c gate now : rdrs (fst (opened_body cf0 s po c gate now)) = rdrs s.
+Proof.
+  unfold opened_body.
+  assert (Hs : forall res, rdrs (fst (settle (set_pouts s (drop_po po (pouts s))) (po_peer po) (q_rid (po_req po)) res)) = rdrs s).
+  { intros res. apply (settle_io (set_pouts s (drop_po po (pouts s)))). }
+  destruct (max_size cf0 <? _); [apply Hs|]. destruct gate as [|[x|x|]]; try apply Hs; reflexivity.
+Qed.
+
+Lemma inopen_shape cf0 s p c :
+  snd (h_inopen cf0 s p c) = [] /\ futs (fst (h_inopen cf0 s p c)) = futs s /\
+  (rdrs (fst (h_inopen cf0 s p c)) = rdrs s \/
+   exists irid, rdrs (fst (h_inopen cf0 s p c)) = rdrs s ++ [mkRd p irid c]).
+Proof.
+  unfold h_inopen. destruct (match max_inb cf0 with Some m => _ | None => _ end); cbn [fst snd]; [auto|].
+  simp_sets. destruct (memN p (peers s)); cbn [fst snd]; simp_sets; repeat split; auto.
+  right. eexists. reflexivity.
+Qed.
+
+Lemma inread_rdrs s c good len tag : rdrs (fst (h_inread s c good len tag)) = drop_rd c (rdrs s).
+Proof.
+  unfold h_inread. destruct (find_rd c (rdrs s)) as [rd|] eqn:F.
+  - destruct (_ && _); [destruct good|]; reflexivity.
+  - cbn [fst]. unfold drop_rd, find_rd in *. induction (rdrs s) as [|a l IH]; [reflexivity|].
+    cbn [find filter] in *. destruct (r_chan a =? c); [discriminate|]. cbn [negb]. f_equal. apply IH. exact F.
+Qed.
+
+Lemma inread_futs s c good len tag : futs (fst (h_inread s c good len tag)) = futs s.
+Proof. pose proof (inread_same s c good len tag) as [(_ & _ & _ & F & _) _]. exact F. Qed.
+
+(* ------------------------------------------------------------------ one step, seen from outside *)
+
+Definition nch (en : env) : N := N.of_nat (length (chans en)).
+
+Record StepFacts (s : pst) (en : env) (s' : pst) (en' : env) (o : list out) (tg : option N) : Prop := mkSF {
+  sf_nch : nch en <= nch en';
+  sf_fut : forall g, In g (futs s') ->
+           (exists f, In f (futs s) /\ f_chan f = f_chan g /\ rid_f f = rid_f g) \/
+           In (OBind (f_chan g) (rid_f g)) o;
+  sf_bind : forall c rid, In (OBind c rid) o ->
+            c = nch en /\ nch en < nch en' /\ forall rid', In (OBind c rid') o -> rid' = rid;
+  sf_rd : forall rd, In rd (rdrs s') -> In rd (rdrs s) \/ (r_chan rd = nch en /\ nch en < nch en');
+  sf_req : has_req o = true ->
+           exists c, tg = Some c /\ c < nch en /\ (exists rd, In rd (rdrs s) /\ r_chan rd = c) /\
+                     forall rd, In rd (rdrs s') -> r_chan rd <> c
+}.
+
+Lemma Q_facts s en s' en' o tg : Q s s' o -> nch en <= nch en' -> StepFacts s en s' en' o tg.
+Proof.
+  intros (C & F & R) L. constructor.
+  - exact L.
+  - intros g Hg. left. exact (F g Hg).
+  - intros c rid H. destruct (calml_nobind _ _ _ C H).
+  - intros rd H. left. rewrite <- R. exact H.
+  - intros H. rewrite (calml_noreq _ C) in H. discriminate.
+Qed.
+
+Lemma set_chan_len c ch l : (N.to_nat c < length l)%nat -> length (set_chan c ch l) = length l.
+Proof.
+  intros H. unfold set_chan. rewrite !app_length, firstn_length, skipn_length. cbn [length]. lia.
+Qed.
+
+Lemma mod_lt_len {A} k (a : A) l : (N.to_nat (k mod N.of_nat (length (a :: l))) < length (a :: l))%nat.
+Proof.
+  assert (k mod N.of_nat (length (a :: l)) < N.of_nat (length (a :: l))) by (apply N.mod_lt; cbn [length]; lia).
+  lia.
+Qed.
+
+Lemma mod_lt_nch k en ch0 chs : chans en = ch0 :: chs -> k mod N.of_nat (length (ch0 :: chs)) < nch en.
+Proof. intros E. unfold nch. rewrite E. apply N.mod_lt. cbn [length]. lia. Qed.
+
+Lemma step_facts cf0 s en e :
+  let r := step cf0 (s, en) e in
+  StepFacts s en (fst (fst (fst r))) (snd (fst (fst r))) (snd (fst r)) (snd r).
+Proof.
+  destruct e; cbn [step].
+  - pose proof (send_Q s p dial len tag (open_ok p en) (p <? ndial cf0) (next_sid en)) as H.
+    destruct (h_send _ _ _ _ _ _ _ _) as [s1 o]. cbn [fst snd] in *. apply Q_facts; [exact H|].
+    destruct (memN p (peers s)); [destruct (conn_of p en) as [[|]|]|]; cbn [chans nch]; unfold nch; cbn [chans]; lia.
+  - pose proof (cancel_Q s rid) as H. destruct (h_cancel s rid) as [s1 o]. cbn [fst snd] in *.
+    apply Q_facts; [exact H|lia].
+  - destruct (conn_of p en); cbn [fst snd]; [apply Q_facts; [apply Q_refl|lia]|].
+    pose proof (established_Q s p (negb broken) (next_sid en)) as H.
+    destruct (h_established _ _ _ _) as [s1 o]. cbn [fst snd] in *. apply Q_facts; [exact H|unfold nch; cbn [chans]; lia].
+  - destruct (conn_of p en); cbn [fst snd]; [|apply Q_facts; [apply Q_refl|lia]].
+    pose proof (closed_Q s p) as H. destruct (h_closed s p) as [s1 o]. cbn [fst snd] in *.
+    apply Q_facts; [exact H|unfold nch; cbn [chans]; lia].
+  - pose proof (dialfail_Q s p) as H. destruct (h_dialfail s p) as [s1 o]. cbn [fst snd] in *.
+    apply Q_facts; [exact H|lia].
+  - (* opened *)
+    destruct (nth_mod k (opens en)) as [[sid q]|]; cbn [fst snd]; [|apply Q_facts; [apply Q_refl|lia]].
+    unfold h_opened. destruct (find_po sid (pouts s)) as [po|].
+    + pose proof (opened_body_futs cf0 s po (N.of_nat (length (chans en))) (N.min gate 2) (now en)) as F.
+      pose proof (opened_body_rdrs cf0 s po (N.of_nat (length (chans en))) (N.min gate 2) (now en)) as R.
+      pose proof (opened_body_plain cf0 s po (N.of_nat (length (chans en))) (N.min gate 2) (now en)) as P.
+      destruct (opened_body _ _ _ _ _ _) as [s1 o]. cbn [fst snd] in *.
+      assert (L : nch en < nch (mkE (next_sid en) (conns en) (filter (fun x => negb (fst x =? sid)) (opens en))
+                                  (chans en ++ [mkCh (N.min gate 2)
+                                     (existsb (fun x => match x with OWire _ _ _ => true | _ => false end)
+                                              (OBind (N.of_nat (length (chans en))) (q_rid (po_req po)) :: o)) true])
+                                  (now en) (hpend en))).
+      { unfold nch. cbn [chans]. rewrite app_length. cbn [length]. lia. }
+      constructor.
+      * lia.
+      * intros g Hg. destruct (F g Hg) as [H|[E1 E2]]; [left; exists g; auto|].
+        right. left. rewrite E1, E2. reflexivity.
+      * intros c rid [H|H]; [|destruct (calml_nobind _ _ _ (plain_calm _ P) H)].
+        injection H as <- <-. split; [reflexivity|]. split; [exact L|].
+        intros rid' [H'|H']; [injection H' as <-; reflexivity|destruct (calml_nobind _ _ _ (plain_calm _ P) H')].
+      * intros rd H. left. rewrite <- R. exact H.
+      * intros H. cbn [has_req existsb] in H. change (existsb _ o) with (has_req o) in H.
+        rewrite (calml_noreq _ (plain_calm _ P)) in H. discriminate.
+    + cbn [fst snd]. apply Q_facts; [apply Q_refl|]. unfold nch. cbn [chans]. rewrite app_length. lia.
+  - destruct (nth_mod k (opens en)) as [[sid q]|]; cbn [fst snd]; [|apply Q_facts; [apply Q_refl|lia]].
+    pose proof (openfail_Q s sid unsupported) as H. destruct (h_openfail _ _ _) as [s1 o]. cbn [fst snd] in *.
+    apply Q_facts; [exact H|unfold nch; cbn [chans]; lia].
+  - (* unblock *)
+    destruct (chans en) as [|ch0 chs] eqn:CH; cbn [fst snd]; [apply Q_facts; [apply Q_refl|lia]|].
+    destruct (nth_error _ _) as [ch|]; cbn [fst snd]; [|apply Q_facts; [apply Q_refl|lia]].
+    destruct (c_gate ch =? 0); cbn [fst snd]; [|apply Q_facts; [apply Q_refl|lia]].
+    pose proof (unblock_Q cf0 s (k mod N.of_nat (length (ch0 :: chs))) (now en)) as H.
+    destruct (fut_unblock _ _ _ _) as [s1 o1]. cbn [fst snd] in H.
+    pose proof (rsp_gate_Q s1 (k mod N.of_nat (length (ch0 :: chs))) true) as H2.
+    destruct (rsp_gate _ _ _) as [s2 o2]. cbn [fst snd] in *.
+    apply Q_facts; [exact (Q_trans _ _ _ _ _ H H2)|].
+    unfold nch. cbn [chans]. rewrite CH, set_chan_len by apply mod_lt_len. lia.
+  - destruct (chans en) as [|ch0 chs] eqn:CH; cbn [fst snd]; [apply Q_facts; [apply Q_refl|lia]|].
+    destruct (nth_error _ _) as [ch|]; cbn [fst snd]; [|apply Q_facts; [apply Q_refl|lia]].
+    destruct (c_gate ch =? 2); cbn [fst snd]; [apply Q_facts; [apply Q_refl|lia]|].
+    pose proof (breakw_Q s (k mod N.of_nat (length (ch0 :: chs)))) as H.
+    destruct (fut_breakw _ _) as [s1 o1]. cbn [fst snd] in H.
+    pose proof (rsp_gate_Q s1 (k mod N.of_nat (length (ch0 :: chs))) false) as H2.
+    destruct (rsp_gate _ _ _) as [s2 o2]. cbn [fst snd] in *.
+    apply Q_facts; [exact (Q_trans _ _ _ _ _ H H2)|].
+    unfold nch. cbn [chans]. rewrite CH, set_chan_len by apply mod_lt_len. lia.
+  - destruct (chans en) as [|ch0 chs] eqn:CH; cbn [fst snd]; [apply Q_facts; [apply Q_refl|lia]|].
+    destruct (nth_error _ _) as [ch|]; cbn [fst snd]; [|apply Q_facts; [apply Q_refl|lia]].
+    destruct (c_out ch && c_seen ch); cbn [fst snd]; [|apply Q_facts; [apply Q_refl|lia]].
+    match goal with |- context [fut_read s ?c ?r] =>
+      pose proof (read_Q s c r) as H; destruct (fut_read s c r) as [s1 o] end. cbn [fst snd] in *.
+    apply Q_facts; [exact H|lia].
+  - destruct (chans en) as [|ch0 chs] eqn:CH; cbn [fst snd]; [apply Q_facts; [apply Q_refl|lia]|].
+    destruct (nth_error _ _) as [ch|]; cbn [fst snd]; [|apply Q_facts; [apply Q_refl|lia]].
+    destruct (c_out ch); [destruct (c_seen ch)|]; cbn [fst snd]; try (apply Q_facts; [apply Q_refl|lia]).
+    + match goal with |- context [fut_read s ?c ?r] =>
+        pose proof (read_Q s c r) as H; destruct (fut_read s c r) as [s1 o] end. cbn [fst snd] in *.
+      apply Q_facts; [exact H|lia].
+    + match goal with |- context [h_inread s ?c ?g ?l ?t] =>
+        pose proof (inread_bad_plain s c l t) as P; pose proof (inread_rdrs s c g l t) as R;
+        pose proof (inread_futs s c g l t) as F; destruct (h_inread s c g l t) as [s1 o] end. cbn [fst snd] in *.
+      constructor; [lia| | | |].
+      * intros g Hg. left. rewrite F in Hg. exists g. auto.
+      * intros c rid H. destruct (calml_nobind _ _ _ (plain_calm _ P) H).
+      * intros rd H. left. rewrite R in H. unfold drop_rd in H. apply filter_In in H. tauto.
+      * intros H. rewrite (calml_noreq _ (plain_calm _ P)) in H. discriminate.
+  - destruct (chans en) as [|ch0 chs] eqn:CH; cbn [fst snd]; [apply Q_facts; [apply Q_refl|lia]|].
+    destruct (nth_error _ _) as [ch|]; cbn [fst snd]; [|apply Q_facts; [apply Q_refl|lia]].
+    destruct (c_out ch); [destruct (c_seen ch)|]; cbn [fst snd]; try (apply Q_facts; [apply Q_refl|lia]).
+    + match goal with |- context [fut_read s ?c ?r] =>
+        pose proof (read_Q s c r) as H; destruct (fut_read s c r) as [s1 o] end. cbn [fst snd] in *.
+      apply Q_facts; [exact H|lia].
+    + match goal with |- context [h_inread s ?c ?g ?l ?t] =>
+        pose proof (inread_bad_plain s c l t) as P; pose proof (inread_rdrs s c g l t) as R;
+        pose proof (inread_futs s c g l t) as F; destruct (h_inread s c g l t) as [s1 o] end. cbn [fst snd] in *.
+      constructor; [lia| | | |].
+      * intros g Hg. left. rewrite F in Hg. exists g. auto.
+      * intros c rid H. destruct (calml_nobind _ _ _ (plain_calm _ P) H).
+      * intros rd H. left. rewrite R in H. unfold drop_rd in H. apply filter_In in H. tauto.
+      * intros H. rewrite (calml_noreq _ (plain_calm _ P)) in H. discriminate.
+  - (* advance *)
+    pose proof (advance_Q s (now en + dt)) as H.
+    destruct (fut_advance s (now en + dt)) as [s1 o]. cbn [fst snd] in *.
+    apply Q_facts; [|unfold nch; cbn [chans]; lia].
+    destruct H as (A & B & C). split; [apply calml_app; [exact A|apply plain_calm, adv_out_plain]|split; [exact B|exact C]].
+  - (* inbound substream *)
+    destruct (conn_of p en); cbn [fst snd]; [|apply Q_facts; [apply Q_refl|lia]].
+    pose proof (inopen_shape cf0 s p (N.of_nat (length (chans en)))) as (O & F & R).
+    destruct (h_inopen _ _ _ _) as [s1 o]. cbn [fst snd] in *. subst o.
+    assert (L : nch en < nch (mkE (next_sid en) (conns en) (opens en) (chans en ++ [mkCh (N.min gate 2) false false])
+                                (now en) (hpend en))).
+    { unfold nch. cbn [chans]. rewrite app_length. cbn [length]. lia. }
+    constructor; [lia| | | |].
+    + intros g Hg. left. rewrite F in Hg. exists g. auto.
+    + intros c rid [].
+    + intros rd H. destruct R as [R|[irid R]]; rewrite R in H; [left; exact H|].
+      apply in_app_or in H. destruct H as [H|[<-|[]]]; [left; exact H|right]. split; [reflexivity|exact L].
+    + intros H. discriminate.
+  - (* inbound request *)
+    destruct (chans en) as [|ch0 chs] eqn:CH; cbn [fst snd]; [apply Q_facts; [apply Q_refl|lia]|].
+    destruct (nth_error _ _) as [ch|]; cbn [fst snd]; [|apply Q_facts; [apply Q_refl|lia]].
+    destruct (negb (c_out ch)); cbn [fst snd]; [|apply Q_facts; [apply Q_refl|lia]].
+    set (c := k mod N.of_nat (length (ch0 :: chs))).
+    pose proof (inread_rdrs s c (len <=? max_size cf0) len tag) as R.
+    pose proof (inread_futs s c (len <=? max_size cf0) len tag) as F.
+    assert (O : plainl (snd (h_inread s c (len <=? max_size cf0) len tag)) \/
+                exists rd, find_rd c (rdrs s) = Some rd /\
+                           snd (h_inread s c (len <=? max_size cf0) len tag) = [OReq (r_irid rd) (r_peer rd) len tag]).
+    { destruct (len <=? max_size cf0); [|left; apply inread_bad_plain].
+      destruct (inread_good_shape s c len tag) as [[E|E] _]; [left; rewrite E; reflexivity|right; exact E]. }
+    destruct (h_inread s c _ len tag) as [s1 o]. cbn [fst snd] in *.
+    assert (L : nch en <= nch (mkE (next_sid en) (conns en) (opens en)
+                                 (set_chan c (mkCh (c_gate ch) true false) (ch0 :: chs)) (now en) (hpend en ++ sent_of o))).
+    { unfold nch. cbn [chans]. rewrite CH, set_chan_len by apply mod_lt_len. lia. }
+    constructor; [exact L| | | |].
+    + intros g Hg. left. rewrite F in Hg. exists g. auto.
+    + intros c' rid H. exfalso. destruct O as [P|[rd [_ E]]].
+      * exact (calml_nobind _ _ _ (plain_calm _ P) H).
+      * rewrite E in H. destruct H as [H|[]]. discriminate.
+    + intros rd H. left. rewrite R in H. unfold drop_rd in H. apply filter_In in H. tauto.
+    + intros H. destruct O as [P|[rd [Fd E]]]; [rewrite (calml_noreq _ (plain_calm _ P)) in H; discriminate|].
+      exists c. split; [reflexivity|]. split; [exact (mod_lt_nch k en ch0 chs CH)|]. split.
+      * apply find_some in Fd. destruct Fd as [A B]. exists rd. split; [exact A|apply N.eqb_eq; exact B].
+      * intros rd' H'. rewrite R in H'. unfold drop_rd in H'. apply filter_In in H'. destruct H' as [_ H'].
+        intros E'. rewrite E', N.eqb_refl in H'. discriminate.
+  - destruct (nth_mod k (hpend en)) as [irid|]; cbn [fst snd]; [|apply Q_facts; [apply Q_refl|lia]].
+    match goal with |- context [h_uresp cf0 s ?a ?b ?c ?f ?d ?e] =>
+      pose proof (uresp_Q cf0 s a b c f d e) as H; destruct (h_uresp cf0 s a b c f d e) as [s1 o] end. cbn [fst snd] in *.
+    apply Q_facts; [exact H|unfold nch; cbn [chans]; lia].
+  - destruct (nth_mod k (hpend en)) as [irid|]; cbn [fst snd]; [|apply Q_facts; [apply Q_refl|lia]].
+    unfold h_urej. cbn [fst snd]. apply Q_facts; [|unfold nch; cbn [chans]; lia].
+    split; [reflexivity|split; [apply FutsPrev_same; reflexivity|reflexivity]].
+  - cbn [fst snd]. apply Q_facts; [apply Q_refl|unfold nch; cbn [chans]; lia].
+Qed.
+
+(* what one step can emit *)
+Lemma step_shape cf0 s en e :
+  let r := step cf0 (s, en) e in
+  let o := snd (fst r) in
+  plainl o \/
+  (exists k g c po o', e = EOpened k g /\ o = OBind c (rid_po po) :: o' /\ plainl o' /\ In po (pouts s) /\
+                       fst (fst (fst r)) = fst (opened_body cf0 s po c (N.min g 2) (now en))) \/
+  (exists k len tag c f, e = ERespond k len tag /\ snd r = Some c /\ find_fut c (futs s) = Some f /\
+                         o = [OResp (rid_f f) len tag]) \/
+  (exists k len tag c rd, e = EInReq k len tag /\ snd r = Some c /\ find_rd c (rdrs s) = Some rd /\
+                          o = [OReq (r_irid rd) (r_peer rd) len tag]).
+Proof.
+  destruct e; cbn [step].
+  - left. pose proof (send_plain s p dial len tag (open_ok p en) (p <? ndial cf0) (next_sid en)) as H.
+    destruct (h_send _ _ _ _ _ _ _ _) as [s1 o]. exact H.
+  - left. pose proof (cancel_plain s rid) as H. destruct (h_cancel s rid) as [s1 o]. exact H.
+  - left. destruct (conn_of p en); cbn [fst snd]; [reflexivity|].
+    pose proof (established_plain s p (negb broken) (next_sid en)) as H.
+    destruct (h_established _ _ _ _) as [s1 o]. exact H.
+  - left. destruct (conn_of p en); cbn [fst snd]; [|reflexivity].
+    pose proof (closed_plain s p) as H. destruct (h_closed s p) as [s1 o]. exact H.
+  - left. pose proof (dialfail_plain s p) as H. destruct (h_dialfail s p) as [s1 o]. exact H.
+  - destruct (nth_mod k (opens en)) as [[sid q]|]; cbn [fst snd]; [|left; reflexivity].
+    unfold h_opened. destruct (find_po sid (pouts s)) as [po|] eqn:F; [|left; reflexivity].
+    pose proof (opened_body_plain cf0 s po (N.of_nat (length (chans en))) (N.min gate 2) (now en)) as P.
+    destruct (opened_body cf0 s po (N.of_nat (length (chans en))) (N.min gate 2) (now en)) as [s1 o] eqn:OB.
+    cbn [fst snd] in *.
+    right. left. exists k, gate, (N.of_nat (length (chans en))), po, o.
+    split; [reflexivity|]. split; [reflexivity|]. split; [exact P|]. split; [exact (proj1 (find_in _ _ _ F))|rewrite OB; reflexivity].
+  - left. destruct (nth_mod k (opens en)) as [[sid q]|]; cbn [fst snd]; [|reflexivity].
+    pose proof (openfail_plain s sid unsupported) as H. destruct (h_openfail _ _ _) as [s1 o]. exact H.
+  - left. destruct (chans en) as [|ch0 chs] eqn:CH; cbn [fst snd]; [reflexivity|].
+    destruct (nth_error _ _) as [ch|]; cbn [fst snd]; [|reflexivity].
+    destruct (c_gate ch =? 0); cbn [fst snd]; [|reflexivity].
+    pose proof (unblock_plain cf0 s (k mod N.of_nat (length (ch0 :: chs))) (now en)) as H.
+    destruct (fut_unblock _ _ _ _) as [s1 o1]. cbn [fst snd] in H.
+    pose proof (rsp_gate_plain s1 (k mod N.of_nat (length (ch0 :: chs))) true) as H2.
+    destruct (rsp_gate _ _ _) as [s2 o2]. cbn [fst snd] in *. apply plainl_app; assumption.
+  - left. destruct (chans en) as [|ch0 chs] eqn:CH; cbn [fst snd]; [reflexivity|].
+    destruct (nth_error _ _) as [ch|]; cbn [fst snd]; [|reflexivity].
+    destruct (c_gate ch =? 2); cbn [fst snd]; [reflexivity|].
+    pose proof (breakw_plain s (k mod N.of_nat (length (ch0 :: chs)))) as H.
+    destruct (fut_breakw _ _) as [s1 o1]. cbn [fst snd] in H.
+    pose proof (rsp_gate_plain s1 (k mod N.of_nat (length (ch0 :: chs))) false) as H2.
+    destruct (rsp_gate _ _ _) as [s2 o2]. cbn [fst snd] in *. apply plainl_app; assumption.
+  - (* respond *)
+    destruct (chans en) as [|ch0 chs] eqn:CH; cbn [fst snd]; [left; reflexivity|].
+    destruct (nth_error _ _) as [ch|]; cbn [fst snd]; [|left; reflexivity].
+    destruct (c_out ch && c_seen ch); cbn [fst snd]; [|left; reflexivity].
+    destruct (len <=? max_size cf0).
+    + destruct (read_ok_shape s (k mod N.of_nat (length (ch0 :: chs))) len tag) as [P|[f [F E]]];
+        destruct (fut_read _ _ _) as [s1 o]; cbn [fst snd] in *; [left; exact P|].
+      right. right. left. exists k, len, tag, (k mod N.of_nat (length (ch0 :: chs))), f. auto.
+    + pose proof (read_err_plain s (k mod N.of_nat (length (ch0 :: chs))) E_SUBSTREAM) as P.
+      destruct (fut_read _ _ _) as [s1 o]. left. exact P.
+  - left. destruct (chans en) as [|ch0 chs] eqn:CH; cbn [fst snd]; [reflexivity|].
+    destruct (nth_error _ _) as [ch|]; cbn [fst snd]; [|reflexivity].
+    destruct (c_out ch); [destruct (c_seen ch)|]; cbn [fst snd]; try reflexivity.
+    + pose proof (read_err_plain s (k mod N.of_nat (length (ch0 :: chs))) E_SUB_CLOSED) as P.
+      destruct (fut_read _ _ _) as [s1 o]. exact P.
+    + pose proof (inread_bad_plain s (k mod N.of_nat (length (ch0 :: chs))) 0 0) as P.
+      destruct (h_inread _ _ _ _ _) as [s1 o]. exact P.
+  - left. destruct (chans en) as [|ch0 chs] eqn:CH; cbn [fst snd]; [reflexivity|].
+    destruct (nth_error _ _) as [ch|]; cbn [fst snd]; [|reflexivity].
+    destruct (c_out ch); [destruct (c_seen ch)|]; cbn [fst snd]; try reflexivity.
+    + pose proof (read_err_plain s (k mod N.of_nat (length (ch0 :: chs))) E_SUB_CLOSED) as P.
+      destruct (fut_read _ _ _) as [s1 o]. exact P.
+    + pose proof (inread_bad_plain s (k mod N.of_nat (length (ch0 :: chs))) 0 0) as P.
+      destruct (h_inread _ _ _ _ _) as [s1 o]. exact P.
+  - left. pose proof (advance_plain s (now en + dt)) as H.
+    destruct (fut_advance s (now en + dt)) as [s1 o]. cbn [fst snd] in *.
+    apply plainl_app; [exact H|apply adv_out_plain].
+  - left. destruct (conn_of p en); cbn [fst snd]; [|reflexivity].
+    pose proof (inopen_shape cf0 s p (N.of_nat (length (chans en)))) as (O & _).
+    destruct (h_inopen _ _ _ _) as [s1 o]. cbn [fst snd] in *. subst o. reflexivity.
+  - (* inbound request *)
+    destruct (chans en) as [|ch0 chs] eqn:CH; cbn [fst snd]; [left; reflexivity|].
+    destruct (nth_error _ _) as [ch|]; cbn [fst snd]; [|left; reflexivity].
+    destruct (negb (c_out ch)); cbn [fst snd]; [|left; reflexivity].
+    destruct (len <=? max_size cf0).
+    + destruct (inread_good_shape s (k mod N.of_nat (length (ch0 :: chs))) len tag) as [[E|[rd [F E]]] _];
+        destruct (h_inread _ _ _ _ _) as [s1 o]; cbn [fst snd] in *; [left; rewrite E; reflexivity|].
+      right. right. right. exists k, len, tag, (k mod N.of_nat (length (ch0 :: chs))), rd. auto.
+    + pose proof (inread_bad_plain s (k mod N.of_nat (length (ch0 :: chs))) len tag) as P.
+      destruct (h_inread _ _ _ _ _) as [s1 o]. left. exact P.
+  - left. destruct (nth_mod k (hpend en)) as [irid|]; cbn [fst snd]; [|reflexivity].
+    match goal with |- context [h_uresp cf0 s ?a ?b ?c ?f ?d ?e] =>
+      pose proof (uresp_plain cf0 s a b c f d e) as H; destruct (h_uresp cf0 s a b c f d e) as [s1 o] end. exact H.
+  - left. destruct (nth_mod k (hpend en)) as [irid|]; cbn [fst snd]; reflexivity.
+  - left. reflexivity.
+Qed.
+
+(* ------------------------------------------------------------------ carriers: binding and use *)
+
+Record Inv4 (s : pst) (en : env) (tr : list out) (used : list N) : Prop := mkInv4 {
+  b_fut : forall f, In f (futs s) -> In (OBind (f_chan f) (rid_f f)) tr;
+  b_lt : forall c rid, In (OBind c rid) tr -> c < nch en;
+  b_fun : forall c r1 r2, In (OBind c r1) tr -> In (OBind c r2) tr -> r1 = r2;
+  u_lt : forall c, In c used -> c < nch en;
+  u_rd : forall c, In c used -> forall rd, In rd (rdrs s) -> r_chan rd <> c;
+  r_lt : forall rd, In rd (rdrs s) -> r_chan rd < nch en;
+  u_nd : NoDup used
+}.
+
+Lemma Inv4_init : Inv4 init_pst init_env [] [].
+Proof. constructor; try (intros; contradiction); try (intros ? ? []); try (intros ? ? ? []); constructor. Qed.
+
+Definition new_used (o : list out) (tg : option N) : list N :=
+  match tg with Some c => if has_req o then [c] else [] | None => [] end.
+
+Lemma NoDup_snoc {A} (l : list A) x : NoDup l -> ~ In x l -> NoDup (l ++ [x]).
+Proof.
+  induction l as [|a l IH]; intros N H; [constructor; [intros []|constructor]|].
+  inversion N; subst. cbn. constructor.
+  - intros Hin. apply in_app_or in Hin. destruct Hin as [Hin|[<-|[]]]; [contradiction|]. apply H. left. reflexivity.
+  - apply IH; [assumption|]. intros Hin. apply H. right. exact Hin.
+Qed.
+
+Lemma Inv4_step s en tr used s' en' o tg :
+  Inv4 s en tr used -> StepFacts s en s' en' o tg -> Inv4 s' en' (tr ++ o) (used ++ new_used o tg).
+Proof.
+  intros [B1 B2 B3 U1 U2 R1 U3] [L F B R Q0].
+  assert (Hnew : forall c, In c (new_used o tg) ->
+            c < nch en /\ (exists rd, In rd (rdrs s) /\ r_chan rd = c) /\ forall rd, In rd (rdrs s') -> r_chan rd <> c).
+  { intros c H. unfold new_used in H. destruct tg as [c0|]; [|destruct H].
+    destruct (has_req o) eqn:E; [|destruct H]. destruct H as [<-|[]].
+    destruct (Q0 eq_refl) as [c1 [E1 H]]. injection E1 as <-. exact H. }
+  constructor.
+  - intros g Hg. apply in_or_app. destruct (F g Hg) as [[f [Hf [E1 E2]]]|H]; [left|right; exact H].
+    rewrite <- E1, <- E2. exact (B1 f Hf).
+  - intros c rid H. apply in_app_or in H. destruct H as [H|H]; [specialize (B2 c rid H); lia|].
+    destruct (B c rid H) as [-> [H1 _]]. exact H1.
+  - intros c r1 r2 H1 H2. apply in_app_or in H1. apply in_app_or in H2.
+    destruct H1 as [H1|H1], H2 as [H2|H2].
+    + exact (B3 c r1 r2 H1 H2).
+    + destruct (B c r2 H2) as [-> _]. specialize (B2 _ _ H1). lia.
+    + destruct (B c r1 H1) as [-> _]. specialize (B2 _ _ H2). lia.
+    + destruct (B c r2 H2) as [_ [_ H]]. exact (H r1 H1).
+  - intros c H. apply in_app_or in H. destruct H as [H|H]; [specialize (U1 c H); lia|].
+    destruct (Hnew c H) as [H1 _]. lia.
+  - intros c H rd Hrd. apply in_app_or in H. destruct H as [H|H].
+    + destruct (R rd Hrd) as [Hold|[E _]]; [exact (U2 c H rd Hold)|]. specialize (U1 c H). lia.
+    + destruct (Hnew c H) as [_ [_ H3]]. exact (H3 rd Hrd).
+  - intros rd Hrd. destruct (R rd Hrd) as [Hold|[E H]]; [specialize (R1 rd Hold); lia|lia].
+  - unfold new_used in *. destruct tg as [c|]; [|rewrite app_nil_r; exact U3].
+    destruct (has_req o) eqn:E; [|rewrite app_nil_r; exact U3].
+    apply NoDup_snoc; [exact U3|]. intros Hin.
+    destruct (Hnew c (or_introl eq_refl)) as [_ [[rd [Hrd Erd]] _]]. exact (U2 c Hin rd Hrd Erd).
+Qed.
+
+Lemma step_Inv4 cf0 s en e tr used :
+  Inv4 s en tr used ->
+  let r := step cf0 (s, en) e in
+  Inv4 (fst (fst (fst r))) (snd (fst (fst r))) (tr ++ snd (fst r)) (used ++ new_used (snd (fst r)) (snd r)).
+Proof. intros I r. apply (Inv4_step s en); [exact I|apply step_facts]. Qed.
+
+Lemma outs_of_cons x l : outs_of (x :: l) = snd (fst x) ++ outs_of l.
+Proof. reflexivity. Qed.
+Lemma req_chans_cons x l : req_chans (x :: l) = new_used (snd (fst x)) (snd x) ++ req_chans l.
+Proof. reflexivity. Qed.
+
+Lemma run_outs cf0 evs : forall st, snd (run cf0 st evs) = outs_of (run_steps cf0 st evs).
+Proof.
+  induction evs as [|e evs IH]; intros st; cbn [run run_steps]; [reflexivity|].
+  destruct (step cf0 st e) as [[st1 o] tg]. specialize (IH st1).
+  destruct (run cf0 st1 evs) as [st2 o2]. cbn [snd] in *. rewrite outs_of_cons. cbn [fst snd]. rewrite IH. reflexivity.
+Qed.
+
+Lemma steps_Inv4 cf0 evs : forall s en tr used,
+  Inv4 s en tr used ->
+  exists s' en', Inv4 s' en' (tr ++ outs_of (run_steps cf0 (s, en) evs))
+                              (used ++ req_chans (run_steps cf0 (s, en) evs)).
+Proof.
+  induction evs as [|e evs IH]; intros s en tr used I; cbn [run_steps].
+  - exists s, en. cbn. rewrite !app_nil_r. exact I.
+  - pose proof (step_Inv4 cf0 s en e tr used I) as H. cbn zeta in H.
+    destruct (step cf0 (s, en) e) as [[[s1 en1] o] tg]. cbn [fst snd] in H.
+    destruct (IH s1 en1 _ _ H) as [s2 [en2 J]]. exists s2, en2.
+    rewrite outs_of_cons, req_chans_cons. cbn [fst snd]. rewrite !app_assoc. exact J.
+Qed.
+
+(* every recorded step is a step of the model from some state *)
+Lemma steps_are_steps cf0 evs : forall st x,
+  In x (run_steps cf0 st evs) ->
+  exists s en, snd (fst x) = snd (fst (step cf0 (s, en) (fst (fst x)))) /\ snd x = snd (step cf0 (s, en) (fst (fst x))).
+Proof.
+  induction evs as [|e evs IH]; intros [s en] x; cbn [run_steps]; [intros []|].
+  destruct (step cf0 (s, en) e) as [[st1 o] tg] eqn:E. intros [<-|H].
+  - exists s, en. cbn [fst snd]. rewrite E. auto.
+  - exact (IH st1 x H).
+Qed.
+
+Lemma plain_not_resp o a b c : plainl o -> ~ In (OResp a b c) o.
+Proof. intros P H. pose proof (plainl_in _ _ P H). discriminate. Qed.
+Lemma plain_not_req o a b c d : plainl o -> ~ In (OReq a b c d) o.
+Proof. intros P H. pose proof (plainl_in _ _ P H). discriminate. Qed.
+
+(* Payload pairing, generalised over the start state. *)
+Lemma payload_gen cf0 evs : forall s en tr used,
+  Inv4 s en tr used ->
+  forall pre e o tg post rid len tag,
+    run_steps cf0 (s, en) evs = pre ++ (e, o, tg) :: post ->
+    In (OResp rid len tag) o ->
+    exists k c, e = ERespond k len tag /\ tg = Some c /\ In (OBind c rid) (tr ++ outs_of pre).
+Proof.
+  induction evs as [|e0 evs IH]; intros s en tr used I pre e o tg post rid len tag E Hin; cbn [run_steps] in E.
+  - destruct pre; discriminate.
+  - pose proof (step_Inv4 cf0 s en e0 tr used I) as I1. pose proof (step_shape cf0 s en e0) as Sh. cbn zeta in *.
+    destruct (step cf0 (s, en) e0) as [[[s1 en1] o0] tg0]. cbn [fst snd] in *.
+    destruct pre as [|x pre]; cbn [app] in E.
+    + injection E as -> -> -> _. rewrite app_nil_r.
+      destruct Sh as [P|[[k0 [g0 [c [po [o' [_ [-> [P _]]]]]]]]|[[k [l [t [c [f [-> [-> [F ->]]]]]]]]|[k [l [t [c [rd [_ [_ [_ ->]]]]]]]]]]].
+      * destruct (plain_not_resp _ _ _ _ P Hin).
+      * destruct Hin as [Hin|Hin]; [discriminate|destruct (plain_not_resp _ _ _ _ P Hin)].
+      * destruct Hin as [Hin|[]]. injection Hin as <- <- <-.
+        apply find_some in F. destruct F as [Hf Hc]. apply N.eqb_eq in Hc.
+        exists k, c. split; [reflexivity|]. split; [reflexivity|]. rewrite <- Hc. exact (b_fut _ _ _ _ I f Hf).
+      * destruct Hin as [Hin|[]]. discriminate.
+    + injection E as <- E2. destruct (IH s1 en1 _ _ I1 pre e o tg post rid len tag E2 Hin) as [k [c [A [B C]]]].
+      exists k, c. split; [exact A|]. split; [exact B|]. rewrite outs_of_cons. cbn [fst snd].
+      rewrite app_assoc. exact C.
+Qed.
+
+Theorem payload_pairing cf0 evs pre e o tg post rid len tag :
+  run_steps cf0 (init_pst, init_env) evs = pre ++ (e, o, tg) :: post ->
+  In (OResp rid len tag) o ->
+  exists k c,
+    e = ERespond k len tag /\ tg = Some c /\
+    In (OBind c rid) (outs_of pre) /\
+    forall rid', In (OBind c rid') (outs_of (run_steps cf0 (init_pst, init_env) evs)) -> rid' = rid.
+Proof.
+  intros E Hin.
+  destruct (payload_gen cf0 evs _ _ _ _ Inv4_init pre e o tg post rid len tag E Hin) as [k [c [A [B C]]]].
+  cbn [app] in C. exists k, c. split; [exact A|]. split; [exact B|]. split; [exact C|].
+  destruct (steps_Inv4 cf0 evs _ _ _ _ Inv4_init) as [s' [en' J]]. cbn [app] in J.
+  intros rid' H. apply (b_fun _ _ _ _ J c); [exact H|].
+  rewrite E. unfold outs_of. rewrite flat_map_app. apply in_or_app. left. exact C.
+Qed.
+
+Theorem responder_once cf0 evs :
+  let steps := run_steps cf0 (init_pst, init_env) evs in
+  NoDup (req_chans steps) /\
+  forall e o tg irid p len tag,
+    In (e, o, tg) steps -> In (OReq irid p len tag) o ->
+    exists k c, e = EInReq k len tag /\ tg = Some c /\ o = [OReq irid p len tag].
+Proof.
+  intros steps. split.
+  - destruct (steps_Inv4 cf0 evs _ _ _ _ Inv4_init) as [s' [en' J]]. exact (u_nd _ _ _ _ J).
+  - intros e o tg irid p len tag Hin Hreq.
+    destruct (steps_are_steps cf0 evs _ _ Hin) as [s [en [Eo Et]]]. cbn [fst snd] in *.
+    pose proof (step_shape cf0 s en e) as Sh. cbn zeta in Sh. rewrite <- Eo, <- Et in Sh.
+    destruct Sh as [P|[[k0 [g0 [c [po [o' [_ [-> [P _]]]]]]]]|[[k [l [t [c [f [_ [_ [_ ->]]]]]]]]|[k [l [t [c [rd [-> [-> [_ ->]]]]]]]]]]].
+    + destruct (plain_not_req _ _ _ _ _ P Hreq).
+    + destruct Hreq as [H|H]; [discriminate|destruct (plain_not_req _ _ _ _ _ P H)].
+    + destruct Hreq as [H|[]]. discriminate.
+    + destruct Hreq as [H|[]]. injection H as <- <- <- <-. exists k, c. auto.
+Qed.
+
+(* ------------------------------------------------------------------ a request is handed to one carrier only *)
+
+(* known ids never (re-)enter the dial queue or the set of substreams being opened *)
+Definition DP (s s' : pst) : Prop :=
+  next_rid s <= next_rid s' /\
+  forall r, r < next_rid s -> (cd r s' + cp r s' <= cd r s + cp r s)%nat.
+
+Definition Keep3 (s s' : pst) : Prop :=
+  dials s' = dials s /\ pouts s' = pouts s /\ next_rid s <= next_rid s'.
+
+Lemma Keep3_DP s s' : Keep3 s s' -> DP s s'.
+Proof. intros (D & P & N). split; [exact N|]. intros r _. unf. rewrite D, P. lia. Qed.
+Lemma Keep3_refl s : Keep3 s s.
+Proof. repeat split; lia. Qed.
+Lemma Keep3_trans s s1 s2 : Keep3 s s1 -> Keep3 s1 s2 -> Keep3 s s2.
+Proof. intros (A & B & C) (D & E & F). repeat split; try congruence; lia. Qed.
+Lemma DP_trans s s1 s2 : DP s s1 -> DP s1 s2 -> DP s s2.
+Proof.
+  intros [A B] [C D]. split; [lia|]. intros r H. specialize (B r H). specialize (D r ltac:(lia)). lia.
+Qed.
+
+Ltac keep3_crush :=
+  unfold Keep3;
+  repeat match goal with
+         | |- context [match ?x with _ => _ end] => destruct x
+         end; cbn; repeat split; try reflexivity; lia.
+
+Lemma settle_Keep3 s p rid res : Keep3 s (fst (settle s p rid res)).
+Proof. unfold settle. keep3_crush. Qed.
+Lemma complete_Keep3 s f res : Keep3 s (fst (complete s f res)).
+Proof. unfold complete. exact (settle_Keep3 (set_futs s (drop_fut f (futs s))) _ _ _). Qed.
+Lemma complete_all_Keep3 l : forall s res, Keep3 s (fst (complete_all s l res)).
+Proof.
+  induction l as [|f l IH]; intros s res; cbn [complete_all fst]; [apply Keep3_refl|].
+  pose proof (complete_Keep3 s f res) as A. destruct (complete s f res) as [s1 o1]. cbn [fst] in A.
+  pose proof (IH s1 res) as B. destruct (complete_all s1 l res) as [s2 o2]. cbn [fst] in *.
+  exact (Keep3_trans _ _ _ A B).
+Qed.
+Lemma unblock_Keep3 cf0 s c now : Keep3 s (fst (fut_unblock cf0 s c now)).
+Proof.
+  unfold fut_unblock. destruct (find_fut c (futs s)) as [f|]; [|apply Keep3_refl].
+  destruct (f_wait f); [apply Keep3_refl|]. destruct (f_cancel f); [|cbn [fst]; repeat split; cbn; lia].
+  pose proof (complete_Keep3 s f (RErr E_CANCELED)) as H. destruct (complete s f _) as [s1 o]. exact H.
+Qed.
+Lemma breakw_Keep3 s c : Keep3 s (fst (fut_breakw s c)).
+Proof.
+  unfold fut_breakw. destruct (find_fut c (futs s)) as [f|]; [|apply Keep3_refl].
+  destruct (f_wait f); [apply Keep3_refl|apply complete_Keep3].
+Qed.
+Lemma read_Keep3 s c res : Keep3 s (fst (fut_read s c res)).
+Proof.
+  unfold fut_read. destruct (find_fut c (futs s)) as [f|]; [|apply Keep3_refl].
+  destruct (f_wait f); [apply complete_Keep3|apply Keep3_refl].
+Qed.
+Lemma cancel_Keep3 s rid : Keep3 s (fst (h_cancel s rid)).
+Proof.
+  unfold h_cancel. destruct (find _ (futs s)) as [f|]; [|apply Keep3_refl].
+  destruct (f_wait f); [apply complete_Keep3|cbn [fst]; repeat split; cbn; lia].
+Qed.
+Lemma same_ledger_Keep3 s s' : same_ledger s s' -> Keep3 s s'.
+Proof. intros (D & _ & P & _ & N & _). repeat split; auto. Qed.
+
+Lemma send_DP s p dial len tag ok dok sid : DP s (fst (h_send s p dial len tag ok dok sid)).
+Proof.
+  unfold h_send. simp_sets.
+  destruct (memN p (peers s)); [destruct ok|destruct dial; cbn [negb]; [destruct dok|]]; cbn [fst];
+    (split; [simp_sets; lia|]); intros r Hr; unf; simp_sets; rewrite ?map_app, ?cnt_app; cbn [map rid_po rid_d po_req snd q_rid];
+    rewrite ?cnt_cons, ?cnt_nil; destruct (N.eqb_spec r (next_rid s)); lia.
+Qed.
+
+Lemma established_DP s p ok sid : DP s (fst (h_established s p ok sid)).
+Proof.
+  unfold h_established. destruct (memN p (peers s)); cbn [fst]; [apply Keep3_DP, Keep3_refl|]. simp_sets.
+  assert (P : forall r, (cnt r (map rid_d (filter (fun d : N * req => N.eqb (fst d) p) (dials s))) +
+                         cnt r (map rid_d (filter (fun d : N * req => negb (N.eqb (fst d) p)) (dials s))) = cd r s)%nat)
+    by (intros r; apply (cnt_part rid_d (fun d : N * req => fst d =? p))).
+  destruct (filter (fun d : N * req => fst d =? p) (dials s)) as [|d0 mine]; [|destruct ok]; cbn [fst];
+    (split; [simp_sets; lia|]); intros r _; specialize (P r); unf; simp_sets;
+    rewrite ?map_app, ?cnt_app, ?number_pouts_rids; cbn [map] in *; rewrite ?cnt_nil in *; lia.
+Qed.
+
+Lemma closed_DP s p : DP s (fst (h_closed s p)).
+Proof.
+  unfold h_closed. simp_sets.
+  pose proof (fun r => cnt_filter_le rid_po (fun po => negb (po_peer po =? p)) r (pouts s)) as PO.
+  destruct (memN p (peers s)); cbn [fst]; (split; [simp_sets; lia|]); intros r _; specialize (PO r); unf; simp_sets; lia.
+Qed.
+
+Lemma dialfail_DP s p : DP s (fst (h_dialfail s p)).
+Proof.
+  unfold h_dialfail. cbn [fst]. split; [simp_sets; lia|]. intros r _. unf. simp_sets.
+  pose proof (cnt_filter_le rid_d (fun d : N * req => negb (fst d =? p)) r (dials s)). lia.
+Qed.
+
+Lemma openfail_DP s sid u : DP s (fst (h_openfail s sid u)).
+Proof.
+  unfold h_openfail. destruct (find_po sid (pouts s)) as [po|]; cbn [fst]; [|apply Keep3_DP, Keep3_refl].
+  split; [simp_sets; lia|]. intros r _. unf. simp_sets. unfold drop_po.
+  pose proof (cnt_filter_le rid_po (fun x => negb (q_rid (po_req x) =? q_rid (po_req po))) r (pouts s)). lia.
+Qed.
+
+Lemma opened_body_dp cf0 s po c gate now :
+  dials (fst (opened_body cf0 s po c gate now)) = dials s /\
+  pouts (fst (opened_body cf0 s po c gate now)) = drop_po po (pouts s) /\
+  next_rid (fst (opened_body cf0 s po c gate now)) = next_rid s.
+Proof.
+  unfold opened_body.
+  assert (H : forall res, let s1 := fst (settle (set_pouts s (drop_po po (pouts s))) (po_peer po) (q_rid (po_req po)) res) in
+                          dials s1 = dials s /\ pouts s1 = drop_po po (pouts s) /\ next_rid s1 = next_rid s).
+  { intros res. unfold settle. destruct (_ && _); cbn; auto. }
+  destruct (max_size cf0 <? _); [apply H|]. destruct gate as [|[x|x|]]; try apply H; cbn; auto.
+Qed.
+
+Lemma opened_DP cf0 s sid c gate now : DP s (fst (h_opened cf0 s sid c gate now)).
+Proof.
+  unfold h_opened. destruct (find_po sid (pouts s)) as [po|]; [|apply Keep3_DP, Keep3_refl].
+  pose proof (opened_body_dp cf0 s po c gate now) as (D & P & N).
+  destruct (opened_body _ _ _ _ _ _) as [s1 o]. cbn [fst] in *.
+  split; [lia|]. intros r _. unf. rewrite D, P. unfold drop_po.
+  pose proof (cnt_filter_le rid_po (fun x => negb (q_rid (po_req x) =? q_rid (po_req po))) r (pouts s)). lia.
+Qed.
+
+Lemma step_DP cf0 s en e : DP s (fst (fst (fst (step cf0 (s, en) e)))).
+Proof.
+  destruct e; cbn [step].
+  - pose proof (send_DP s p dial len tag (open_ok p en) (p <? ndial cf0) (next_sid en)) as H.
+    destruct (h_send _ _ _ _ _ _ _ _) as [s1 o]. exact H.
+  - pose proof (cancel_Keep3 s rid) as H. destruct (h_cancel s rid) as [s1 o]. exact (Keep3_DP _ _ H).
+  - destruct (conn_of p en); cbn [fst]; [apply Keep3_DP, Keep3_refl|].
+    pose proof (established_DP s p (negb broken) (next_sid en)) as H. destruct (h_established _ _ _ _) as [s1 o]. exact H.
+  - destruct (conn_of p en); cbn [fst]; [|apply Keep3_DP, Keep3_refl].
+    pose proof (closed_DP s p) as H. destruct (h_closed s p) as [s1 o]. exact H.
+  - pose proof (dialfail_DP s p) as H. destruct (h_dialfail s p) as [s1 o]. exact H.
+  - destruct (nth_mod k (opens en)) as [[sid q]|]; cbn [fst]; [|apply Keep3_DP, Keep3_refl].
+    pose proof (opened_DP cf0 s sid (N.of_nat (length (chans en))) (N.min gate 2) (now en)) as H.
+    destruct (h_opened _ _ _ _ _ _) as [s1 o]. exact H.
+  - destruct (nth_mod k (opens en)) as [[sid q]|]; cbn [fst]; [|apply Keep3_DP, Keep3_refl].
+    pose proof (openfail_DP s sid unsupported) as H. destruct (h_openfail _ _ _) as [s1 o]. exact H.
+  - destruct (chans en) as [|ch0 chs]; cbn [fst]; [apply Keep3_DP, Keep3_refl|].
+    destruct (nth_error _ _) as [ch|]; cbn [fst]; [|apply Keep3_DP, Keep3_refl].
+    destruct (c_gate ch =? 0); cbn [fst]; [|apply Keep3_DP, Keep3_refl].
+    pose proof (unblock_Keep3 cf0 s (k mod N.of_nat (length (ch0 :: chs))) (now en)) as H.
+    destruct (fut_unblock _ _ _ _) as [s1 o1]. cbn [fst] in H.
+    pose proof (rsp_gate_same s1 (k mod N.of_nat (length (ch0 :: chs))) true) as [H2 _].
+    destruct (rsp_gate _ _ _) as [s2 o2]. cbn [fst] in *.
+    exact (Keep3_DP _ _ (Keep3_trans _ _ _ H (same_ledger_Keep3 _ _ H2))).
+  - destruct (chans en) as [|ch0 chs]; cbn [fst]; [apply Keep3_DP, Keep3_refl|].
+    destruct (nth_error _ _) as [ch|]; cbn [fst]; [|apply Keep3_DP, Keep3_refl].
+    destruct (c_gate ch =? 2); cbn [fst]; [apply Keep3_DP, Keep3_refl|].
+    pose proof (breakw_Keep3 s (k mod N.of_nat (length (ch0 :: chs)))) as H.
+    destruct (fut_breakw _ _) as [s1 o1]. cbn [fst] in H.
+    pose proof (rsp_gate_same s1 (k mod N.of_nat (length (ch0 :: chs))) false) as [H2 _].
+    destruct (rsp_gate _ _ _) as [s2 o2]. cbn [fst] in *.
+    exact (Keep3_DP _ _ (Keep3_trans _ _ _ H (same_ledger_Keep3 _ _ H2))).
+  - destruct (chans en) as [|ch0 chs]; cbn [fst]; [apply Keep3_DP, Keep3_refl|].
+    destruct (nth_error _ _) as [ch|]; cbn [fst]; [|apply Keep3_DP, Keep3_refl].
+    destruct (c_out ch && c_seen ch); cbn [fst]; [|apply Keep3_DP, Keep3_refl].
+    match goal with |- context [fut_read s ?c ?r] =>
+      pose proof (read_Keep3 s c r) as H; destruct (fut_read s c r) as [s1 o] end. exact (Keep3_DP _ _ H).
+  - destruct (chans en) as [|ch0 chs]; cbn [fst]; [apply Keep3_DP, Keep3_refl|].
+    destruct (nth_error _ _) as [ch|]; cbn [fst]; [|apply Keep3_DP, Keep3_refl].
+    destruct (c_out ch); [destruct (c_seen ch)|]; cbn [fst]; try (apply Keep3_DP, Keep3_refl).
+    + match goal with |- context [fut_read s ?c ?r] =>
+        pose proof (read_Keep3 s c r) as H; destruct (fut_read s c r) as [s1 o] end. exact (Keep3_DP _ _ H).
+    + match goal with |- context [h_inread s ?c ?g ?l ?t] =>
+        pose proof (inread_same s c g l t) as [H _]; destruct (h_inread s c g l t) as [s1 o] end.
+      exact (Keep3_DP _ _ (same_ledger_Keep3 _ _ H)).
+  - destruct (chans en) as [|ch0 chs]; cbn [fst]; [apply Keep3_DP, Keep3_refl|].
+    destruct (nth_error _ _) as [ch|]; cbn [fst]; [|apply Keep3_DP, Keep3_refl].
+    destruct (c_out ch); [destruct (c_seen ch)|]; cbn [fst]; try (apply Keep3_DP, Keep3_refl).
+    + match goal with |- context [fut_read s ?c ?r] =>
+        pose proof (read_Keep3 s c r) as H; destruct (fut_read s c r) as [s1 o] end. exact (Keep3_DP _ _ H).
+    + match goal with |- context [h_inread s ?c ?g ?l ?t] =>
+        pose proof (inread_same s c g l t) as [H _]; destruct (h_inread s c g l t) as [s1 o] end.
+      exact (Keep3_DP _ _ (same_ledger_Keep3 _ _ H)).
+  - pose proof (complete_all_Keep3 (filter (fun f => f_dl f <=? now en + dt) (futs s)) s (RErr E_TIMEOUT)) as H.
+    unfold fut_advance. destruct (complete_all _ _ _) as [s1 o]. cbn [fst] in *.
+    apply Keep3_DP. destruct H as (A & B & C). repeat split; assumption.
+  - destruct (conn_of p en); cbn [fst]; [|apply Keep3_DP, Keep3_refl].
+    pose proof (inopen_same cf0 s p (N.of_nat (length (chans en)))) as [H _].
+    destruct (h_inopen _ _ _ _) as [s1 o]. exact (Keep3_DP _ _ (same_ledger_Keep3 _ _ H)).
+  - destruct (chans en) as [|ch0 chs]; cbn [fst]; [apply Keep3_DP, Keep3_refl|].
+    destruct (nth_error _ _) as [ch|]; cbn [fst]; [|apply Keep3_DP, Keep3_refl].
+    destruct (negb (c_out ch)); cbn [fst]; [|apply Keep3_DP, Keep3_refl].
+    match goal with |- context [h_inread s ?c ?g ?l ?t] =>
+      pose proof (inread_same s c g l t) as [H _]; destruct (h_inread s c g l t) as [s1 o] end.
+    exact (Keep3_DP _ _ (same_ledger_Keep3 _ _ H)).
+  - destruct (nth_mod k (hpend en)) as [irid|]; cbn [fst]; [|apply Keep3_DP, Keep3_refl].
+    match goal with |- context [h_uresp cf0 s ?a ?b ?c ?f ?d ?e] =>
+      pose proof (uresp_same cf0 s a b c f d e) as [H _]; destruct (h_uresp cf0 s a b c f d e) as [s1 o] end.
+    exact (Keep3_DP _ _ (same_ledger_Keep3 _ _ H)).
+  - destruct (nth_mod k (hpend en)) as [irid|]; cbn [fst]; [|apply Keep3_DP, Keep3_refl].
+    unfold h_urej. cbn [fst]. apply Keep3_DP. repeat split; cbn; lia.
+  - cbn [fst]. apply Keep3_DP, Keep3_refl.
+Qed.
+
+(* a bound request id is known and has left the dial queue and pending_outbound for good *)
+Definition Inv5 (s : pst) (tr : list out) : Prop :=
+  forall c rid, In (OBind c rid) tr -> rid < next_rid s /\ (cd rid s + cp rid s = 0)%nat.
+
+Lemma step_Inv5 cf0 s en e tr :
+  Inv s tr -> Inv5 s tr ->
+  let r := step cf0 (s, en) e in
+  Inv5 (fst (fst (fst r))) (tr ++ snd (fst r)) /\
+  (forall c rid, In (OBind c rid) (snd (fst r)) -> (1 <= cp rid s)%nat).
+Proof.
+  intros I I5 r. pose proof (step_DP cf0 s en e) as [N D]. pose proof (step_shape cf0 s en e) as Sh.
+  cbn zeta in Sh. fold r in N, D, Sh.
+  assert (Hold : forall c rid, In (OBind c rid) tr ->
+            rid < next_rid (fst (fst (fst r))) /\ (cd rid (fst (fst (fst r))) + cp rid (fst (fst (fst r))) = 0)%nat).
+  { intros c rid H. destruct (I5 c rid H) as [A B]. split; [lia|]. specialize (D rid A). lia. }
+  destruct Sh as [P|[[k [g [c [po [o' [_ [Eo [P [Hpo Es]]]]]]]]]|[[k [l [t [c [f [_ [_ [_ Eo]]]]]]]]|[k [l [t [c [rd [_ [_ [_ Eo]]]]]]]]]]].
+  - split; [|intros c rid H; destruct (calml_nobind _ _ _ (plain_calm _ P) H)].
+    intros c rid H. apply in_app_or in H. destruct H as [H|H]; [exact (Hold c rid H)|].
+    destruct (calml_nobind _ _ _ (plain_calm _ P) H).
+  - assert (Hcp : (1 <= cp (rid_po po) s)%nat) by (apply cnt_pos_in; apply in_map; exact Hpo).
+    split.
+    + intros c' rid H. apply in_app_or in H. destruct H as [H|H]; [exact (Hold c' rid H)|].
+      rewrite Eo in H. destruct H as [H|H]; [|destruct (calml_nobind _ _ _ (plain_calm _ P) H)].
+      injection H as <- <-. rewrite Es.
+      pose proof (opened_body_dp cf0 s po c (N.min g 2) (now en)) as (Dd & Dp & Dn).
+      split.
+      * rewrite Dn. destruct (N.lt_ge_cases (rid_po po) (next_rid s)) as [L|L]; [exact L|].
+        pose proof (inv_fresh _ _ I (rid_po po) L). lia.
+      * unf. rewrite Dd, Dp. unfold drop_po. rewrite (cnt_drop_key rid_po). unfold rid_po at 2. rewrite N.eqb_refl.
+        pose proof (inv_ctx _ _ I (rid_po po)). unf. lia.
+    + intros c' rid H. rewrite Eo in H. destruct H as [H|H]; [|destruct (calml_nobind _ _ _ (plain_calm _ P) H)].
+      injection H as <- <-. exact Hcp.
+  - split; [|intros c' rid H; rewrite Eo in H; destruct H as [H|[]]; discriminate].
+    intros c' rid H. apply in_app_or in H. destruct H as [H|H]; [exact (Hold c' rid H)|].
+    rewrite Eo in H. destruct H as [H|[]]. discriminate.
+  - split; [|intros c' rid H; rewrite Eo in H; destruct H as [H|[]]; discriminate].
+    intros c' rid H. apply in_app_or in H. destruct H as [H|H]; [exact (Hold c' rid H)|].
+    rewrite Eo in H. destruct H as [H|[]]. discriminate.
+Qed.
+
+(* a request id is bound to at most one carrier *)
+Definition BindInj (tr : list out) : Prop :=
+  forall c c' rid, In (OBind c rid) tr -> In (OBind c' rid) tr -> c = c'.
+
+Lemma steps_bind_inj cf0 evs : forall s en tr used,
+  Inv s tr -> Inv4 s en tr used -> Inv5 s tr -> BindInj tr ->
+  BindInj (tr ++ outs_of (run_steps cf0 (s, en) evs)).
+Proof.
+  induction evs as [|e evs IH]; intros s en tr used I I4 I5 B; cbn [run_steps].
+  - cbn. rewrite app_nil_r. exact B.
+  - pose proof (step_Inv cf0 s en e tr I) as I'. pose proof (step_Inv4 cf0 s en e tr used I4) as I4'.
+    pose proof (step_Inv5 cf0 s en e tr I I5) as [I5' Src]. pose proof (step_facts cf0 s en e) as SF.
+    cbn zeta in *. destruct (step cf0 (s, en) e) as [[[s1 en1] o] tg]. cbn [fst snd] in *.
+    rewrite outs_of_cons. cbn [fst snd]. rewrite app_assoc. apply (IH s1 en1 _ _ I' I4' I5').
+    intros c c' rid H1 H2. apply in_app_or in H1. apply in_app_or in H2.
+    destruct H1 as [H1|H1], H2 as [H2|H2].
+    + exact (B c c' rid H1 H2).
+    + destruct (I5 c rid H1) as [_ Z]. specialize (Src c' rid H2). lia.
+    + destruct (I5 c' rid H2) as [_ Z]. specialize (Src c rid H1). lia.
+    + destruct (sf_bind _ _ _ _ _ _ SF c rid H1) as [-> _]. destruct (sf_bind _ _ _ _ _ _ SF c' rid H2) as [-> _]. reflexivity.
+Qed.
+
+Theorem bind_injective cf0 evs c c' rid :
+  In (OBind c rid) (outs_of (run_steps cf0 (init_pst, init_env) evs)) ->
+  In (OBind c' rid) (outs_of (run_steps cf0 (init_pst, init_env) evs)) -> c = c'.
+Proof.
+  apply (steps_bind_inj cf0 evs init_pst init_env [] [] Inv_init Inv4_init).
+  - intros x y [].
+  - intros x y z [].
 Qed.
